@@ -6,7 +6,7 @@ import ast
 from ..core import Ctx
 from ..localnames import load_table
 from ..match import _atoms_with_polarity, arg, call_name, calls, fact_of, facts_at, is_param, local_defs, resolve, single_def, stores
-from ..model import (NOCONST, AnalysisError, FuncInfo, chain, clone, const_value, enclosing_stmt, norm, parent, strip_cast,
+from ..model import (NOCONST, AnalysisError, FuncInfo, chain, clone, const_value, enclosing_stmt, head, norm, parent, strip_cast,
                      walk_no_nested)
 
 LEVEL = "other"
@@ -25,7 +25,24 @@ EXPLANATION = (
     "established hop; the EXTEND request names key and address of one and the same peer on every pair of reaching definitions. "
     "Expressions are compared after expanding single-assignment locals and binding the parameters of helper functions that do "
     "not exist in the reviewed tree to the caller's arguments (the helper is analysed in the caller's context, also when it "
-    "returns a decision the caller acts on). Equality of derived keys is X25519/HKDF (trusted)."
+    "returns a decision the caller acts on). Where the identifier test is not a dominating fact at the call (spelled through "
+    "conditional expressions / result objects / operator functions, or moved into the callee), it is decided by reachability under "
+    "an assumption: everything that processes an answer must be unreachable both when no RetryRequestCache exists for the circuit "
+    "and when its packet_identifier differs (three-valued evaluation of the conditions, locals with several definitions followed "
+    "along the CFG). The same machinery states that code which runs only for an answer that is not the awaited one has no effect "
+    "besides logging (no reviewed method of the community, no change of its tables or of the request cache). The acceptance is "
+    "atomic: no suspension point between the entry of the answer handler and hop.keys / clearing unverified_hop / add_hop, and the "
+    "next attempt (send_extend) is started from the acceptance only after the RetryRequestCache of the accepted hop was popped. "
+    "Release after acceptance (C08.release-after-accept): between circuit.add_hop(hop) and the release of the retry of that hop "
+    "(request_cache.pop(RetryRequestCache, <circuit id>) attempted, or remove_circuit(<circuit id>); also inside new helpers) no "
+    "call / await / non-loop-index subscript that consumes data of the answer (payload fields other than the matched circuit_id / "
+    "identifier, the payload as a whole, locals derived from them, followed into helper parameters) may be able to end the handler: "
+    "its exceptional edge is followed through except clauses and out of helpers into their callers, and neither the raise exit nor - "
+    "after being caught - the normal exit of the answer handler may be reached before a release (otherwise a bit flip in the "
+    "candidate list leaves the RetryRequestCache of an accepted hop registered; its timeout re-runs the retry for a filled position). "
+    "Calls that do not consume answer data (logging, self.circuits.get(circuit_id)) get no such edge; the ordinary return without "
+    "release in a state other than EXTENDING / READY is listed in the evidence, not reported. "
+    "``with contextlib.suppress(E)`` is given the control flow of try / except E: pass. Equality of derived keys is X25519/HKDF (trusted)."
 )
 
 TC = "ipv8/messaging/anonymization/community.py"
@@ -61,15 +78,205 @@ def _is_new(fi: FuncInfo) -> bool:
     return fi.qualname not in load_table().get(fi.module.relpath, {})
 
 
-def _pargs(call: ast.Call, names: list[str]) -> list[ast.expr | None] | None:
-    """The arguments of `call` in the order of `names` (positional or keyword); None if the call has other arguments."""
-    if len(call.args) > len(names) or any(isinstance(a, ast.Starred) for a in call.args) \
-            or any(k.arg is None or k.arg not in names[len(call.args):] for k in call.keywords):
+def _pargs(call: ast.Call, names: list[str], fi: FuncInfo | None = None) -> list[ast.expr | None] | None:
+    """
+    The arguments of `call` in the order of `names` (positional or keyword); None if the call has other arguments.
+    ``f(*seq)`` / ``f(**{..})`` with an evident sequence / dict display (also held in a single-assignment local of fi) are spelled out.
+    """
+    pos: list = []
+    for a in call.args:
+        if isinstance(a, ast.Starred):
+            its = _seq_items(resolve(fi, a.value) if fi is not None else a.value, fi.module if fi is not None else None)
+            if its is None:
+                return None
+            pos += its
+        else:
+            pos.append(a)
+    kws: dict = {}
+    for k in call.keywords:
+        if k.arg is None:
+            d = resolve(fi, k.value) if fi is not None else strip_cast(k.value)
+            if not isinstance(d, ast.Dict) or not all(kk is not None and isinstance(const_value(kk), str) for kk in d.keys):
+                return None
+            for kk, val in zip(d.keys, d.values):
+                kws[const_value(kk)] = val
+        else:
+            kws[k.arg] = k.value
+    if len(pos) > len(names) or any(k not in names[len(pos):] for k in kws):
         return None
-    return [arg(call, i, n) for i, n in enumerate(names)]
+    return [pos[i] if i < len(pos) else kws.get(n) for i, n in enumerate(names)]
 
 
 _BUILTIN_METHODS = frozenset(n for t in (dict, list, set, tuple, str, bytes, bytearray, int, object) for n in dir(t))
+
+
+# ---- control flow of ``with contextlib.suppress(E): BODY``: that of ``try: BODY`` / ``except E: pass``
+def _is_suppress(mod, e: ast.AST) -> bool:
+    e = strip_cast(e)
+    return isinstance(e, ast.Call) and not e.keywords and not any(isinstance(a, ast.Starred) for a in e.args) \
+        and _imported_as(mod, e.func, "contextlib", ("suppress",))
+
+
+def _unsuppress_block(stmts: list, mod, back: dict) -> tuple[list, bool]:
+    out, changed = [], False
+    for st in stmts:
+        ns = _unsuppress_stmt(st, mod, back)
+        changed = changed or ns is not st
+        out.append(ns)
+    return (out, True) if changed else (stmts, False)
+
+
+def _unsuppress_stmt(st: ast.stmt, mod, back: dict) -> ast.stmt:
+    """st, or a shallow copy in which every ``with suppress(E):`` block (also nested deeper) is a try / except E: pass (sub-nodes are shared)"""
+    import copy
+    if isinstance(st, (ast.FunctionDef, ast.AsyncFunctionDef, ast.ClassDef)):
+        return st
+    new: dict = {}
+    for f in ("body", "orelse", "finalbody"):
+        blk = getattr(st, f, None)
+        if isinstance(blk, list) and blk and isinstance(blk[0], ast.stmt):
+            nb, ch = _unsuppress_block(blk, mod, back)
+            if ch:
+                new[f] = nb
+    if isinstance(getattr(st, "handlers", None), list):
+        hs, ch = [], False
+        for h in st.handlers:
+            nb, c2 = _unsuppress_block(h.body, mod, back)
+            if c2:
+                nh = copy.copy(h)
+                nh.body = nb
+                back[id(nh)] = h
+                hs.append(nh)
+                ch = True
+            else:
+                hs.append(h)
+        if ch:
+            new["handlers"] = hs
+    sup = [i for i in st.items if _is_suppress(mod, i.context_expr)] if isinstance(st, ast.With) else []
+    if not new and not sup:
+        return st
+    ns = copy.copy(st)
+    for f, val in new.items():
+        setattr(ns, f, val)
+    back[id(ns)] = st
+    if not sup:
+        return ns
+    types = [a for i in sup for a in strip_cast(i.context_expr).args]
+    if not types:
+        return ns           # suppress() without arguments suppresses nothing
+    handler = ast.ExceptHandler(type=types[0] if len(types) == 1 else ast.Tuple(elts=list(types), ctx=ast.Load()), name=None, body=[ast.Pass()])
+    tr = ast.Try(body=ns.body, handlers=[handler], orelse=[], finalbody=[])
+    for x in (tr, handler, handler.body[0]):
+        ast.copy_location(x, st)
+        x._parent = parent(st)
+    handler._parent = tr
+    handler.body[0]._parent = handler
+    rest = [i for i in st.items if i not in sup]
+    if rest:
+        ns.items = rest
+        ns.body = [tr]
+        return ns
+    back.pop(id(ns), None)
+    return tr
+
+
+def _cfg_of(ctx: Ctx, fi: FuncInfo):
+    """
+    ctx.cfg(fi); for a function that uses ``with contextlib.suppress(..)`` the graph is built from a shallow copy in which these
+    blocks are try / except .. : pass (the engine's CFG has no edge from a suppressed exception to the code after the block).
+    The copy shares every statement and expression with the repository's tree, which is left untouched.
+    """
+    k = id(fi.node)
+    if k in ctx._cfgs:
+        return ctx._cfgs[k]
+    mod = fi.module
+    if not isinstance(fi.node, (ast.FunctionDef, ast.AsyncFunctionDef)) or \
+            not any(isinstance(x, ast.With) and any(_is_suppress(mod, i.context_expr) for i in x.items) for x in walk_no_nested(fi.node)):
+        return ctx.cfg(fi)
+    import copy
+    from ..cfg import CFG
+    back: dict = {}
+    body, changed = _unsuppress_block(fi.node.body, mod, back)
+    if not changed:
+        return ctx.cfg(fi)
+    shell = copy.copy(fi.node)
+    shell.body = body
+    g = CFG(shell)
+    g.func = fi.node
+    for n in g.nodes:
+        if n.ast is not None and id(n.ast) in back:
+            orig = back[id(n.ast)]
+            g.by_ast.setdefault(id(orig), []).append(n)
+            n.ast = orig
+    ctx.functions.add(fi.where)
+    ctx._cfgs[k] = g
+    return g
+
+
+def _record_fields(cls) -> list[str] | None:
+    """field names, in constructor order, of a NamedTuple / dataclass without a hand-written constructor"""
+    node = cls.node
+    is_nt = any(chain(b) in ("NamedTuple", "typing.NamedTuple") for b in node.bases)
+    is_dc = any((chain(d.func) if isinstance(d, ast.Call) else chain(d)) in ("dataclass", "dataclasses.dataclass") for d in node.decorator_list)
+    if not (is_nt or is_dc) or len(node.bases) > (1 if is_nt else 0) or "__init__" in cls.methods or "__new__" in cls.methods or "__post_init__" in cls.methods:
+        return None
+    out = []
+    for st in node.body:
+        if isinstance(st, ast.AnnAssign) and isinstance(st.target, ast.Name) and "ClassVar" not in norm(st.annotation):
+            out.append(st.target.id)
+    return out
+
+
+def _project(v: "_View", base: ast.AST, key) -> ast.AST | None:
+    """
+    base.<key> (attribute name) / base[<key>] (constant index) when base is a tuple display or the construction of a
+    NamedTuple / dataclass record of this repository: the corresponding element / constructor argument.
+    """
+    base = strip_cast(base)
+    if isinstance(base, (ast.Tuple, ast.List)) and isinstance(key, int):
+        if 0 <= key < len(base.elts) and not any(isinstance(x, ast.Starred) for x in base.elts):
+            return base.elts[key]
+        return None
+    if not isinstance(base, ast.Call) or not isinstance(base.func, ast.Name) or any(isinstance(a, ast.Starred) for a in base.args) \
+            or any(k.arg is None for k in base.keywords):
+        return None
+    try:
+        cls = v.ctx.repo.resolve_name(v.fi.module, base.func.id)
+    except Exception:  # noqa: BLE001
+        return None
+    fields = _record_fields(cls) if hasattr(cls, "methods") and hasattr(cls, "node") and isinstance(cls.node, ast.ClassDef) else None
+    if not fields:
+        return None
+    if isinstance(key, int):
+        if not any(chain(b) in ("NamedTuple", "typing.NamedTuple") for b in cls.node.bases) or not 0 <= key < len(fields):
+            return None
+        key = fields[key]
+    if key not in fields:
+        return None
+    i = fields.index(key)
+    if i < len(base.args):
+        return base.args[i]
+    for k in base.keywords:
+        if k.arg == key:
+            return k.value
+    for st in cls.node.body:         # field default
+        if isinstance(st, ast.AnnAssign) and isinstance(st.target, ast.Name) and st.target.id == key and st.value is not None:
+            return clone(st.value)
+    return None
+
+
+def _boolean_valued(e: ast.AST, depth: int = 4) -> bool:
+    """e evaluates to True / False whatever its operands are: a comparison, ``not x``, ``bool(x)``, and / or of such"""
+    e = strip_cast(e)
+    if isinstance(e, ast.Compare) or isinstance(e, ast.UnaryOp) and isinstance(e.op, ast.Not) or isinstance(const_value(e), bool):
+        return True
+    if isinstance(e, ast.Call) and isinstance(e.func, ast.Name) and e.func.id in ("bool", "isinstance", "callable", "any", "all"):
+        return True
+    if isinstance(e, ast.BoolOp) and depth > 0:
+        return all(_boolean_valued(x, depth - 1) for x in e.values)
+    if isinstance(e, ast.IfExp) and depth > 0:
+        return _boolean_valued(e.body, depth - 1) and _boolean_valued(e.orelse, depth - 1)
+    return False
 
 
 class _View:
@@ -81,7 +288,7 @@ class _View:
     """
 
     def __init__(self, ctx: Ctx, fi: FuncInfo, bind: dict | None = None, up: "_View | None" = None, site: ast.Call | None = None):
-        self.ctx, self.fi, self.cfg = ctx, fi, ctx.cfg(fi)
+        self.ctx, self.fi, self.cfg = ctx, fi, _cfg_of(ctx, fi)
         self.bind = bind or {}
         self.up, self.site = up, site
         self.extra: list = []           # facts (in the caller's terms) under which a dispatch selects this callee
@@ -96,13 +303,19 @@ class _View:
         return out
 
     # ---- expressions
-    def expand(self, e: ast.AST | None, *, keep: frozenset = frozenset(), env: dict | None = None, depth: int = 8):
-        return None if e is None else self._x(e, depth, frozenset(keep), env or {})
+    def expand(self, e: ast.AST | None, *, keep: frozenset = frozenset(), env: dict | None = None, depth: int = 8, at: ast.AST | None = None,
+               obj: bool = False):
+        """at: where the expression is evaluated (default: e itself when it is a node of this function); obj: e is used as an object there"""
+        if e is None:
+            return None
+        if at is None and parent(e) is not None:
+            at = e
+        return self._x(e, depth, frozenset(keep), env or {}, at, obj)
 
     def xn(self, e: ast.AST | None, **kw) -> str | None:
         return None if e is None else norm(self.expand(e, **kw))
 
-    def _x(self, e, depth: int, keep: frozenset, env: dict):
+    def _x(self, e, depth: int, keep: frozenset, env: dict, at=None, obj: bool = False):
         if not isinstance(e, ast.AST):
             return e
         e = strip_cast(e)
@@ -113,13 +326,27 @@ class _View:
                 if e.id in self.bind and not local_defs(self.fi, e.id):
                     return clone(self.bind[e.id])
                 if depth > 0:
-                    d = self.one_def(e.id)
+                    common = self._common_component(e, depth) if parent(e) is not None else None
+                    if common is not None:
+                        return common
+                    d = self.one_def(e.id) or self._value_def(e.id, at, obj)
                     if d is not None and d[1] is None and not isinstance(d[0], (ast.Yield, ast.YieldFrom, ast.Await)):
-                        return self._x(d[0], depth - 1, keep | {e.id}, env)
+                        return self._x(d[0], depth - 1, keep | {e.id}, env, d[0], obj)
+                    if d is not None and d[1] is None and isinstance(d[0], ast.Await) and isinstance(strip_cast(d[0].value), ast.Call):
+                        syn = _deferred_call(self, strip_cast(d[0].value))     # await loop.run_in_executor(None, f, a, b) is f(a, b)
+                        if syn is not None:
+                            return self._x(syn, depth - 1, keep | {e.id}, env, d[0])
                     if d is not None and d[1] is not None and self._plain_unpack(e.id, d[1]):
                         # `a, b = seq`: a is seq[0] (no starred target before it)
-                        return ast.Subscript(value=self._x(d[0], depth - 1, keep | {e.id}, env), slice=ast.Constant(value=d[1]), ctx=ast.Load())
+                        src = self._x(d[0], depth - 1, keep | {e.id}, env, d[0])
+                        return _project(self, src, d[1]) or ast.Subscript(value=src, slice=ast.Constant(value=d[1]), ctx=ast.Load())
             return clone(e)
+        if depth > 0 and isinstance(e, (ast.Attribute, ast.Subscript)) and isinstance(e.ctx, ast.Load) and parent(e) is not None:
+            base = strip_cast(e.value)
+            if not (isinstance(base, ast.Name) and (base.id in keep or base.id in env)):
+                common = self._common_component(e, depth)
+                if common is not None:
+                    return common
         if isinstance(e, (ast.Lambda, ast.GeneratorExp, ast.ListComp, ast.SetComp, ast.DictComp)):
             return clone(e)     # own scopes: left as written
         if isinstance(e, ast.Call) and depth > 0:
@@ -129,17 +356,81 @@ class _View:
                 if vals is not None and len(vals) == 1:
                     # a new helper that returns one expression or else None / False: where its result is used as an object
                     # it is that expression (the caller has excluded the constant, or fails on it)
-                    return kv._x(vals[0], depth - 1, frozenset(), {})
+                    return kv._x(vals[0], depth - 1, frozenset(), {}, vals[0])
         new = type(e)()
         for f in e._fields:
             if not hasattr(e, f):
                 continue
             v = getattr(e, f)
-            setattr(new, f, [self._x(x, depth, keep, env) for x in v] if isinstance(v, list) else self._x(v, depth, keep, env))
+            sub_obj = f == "value" and isinstance(e, (ast.Attribute, ast.Subscript))
+            setattr(new, f, [self._x(x, depth, keep, env, at) for x in v] if isinstance(v, list) else self._x(v, depth, keep, env, at, sub_obj))
         for a in e._attributes:
             if hasattr(e, a):
                 setattr(new, a, getattr(e, a))
+        if isinstance(new, ast.Call) and isinstance(new.func, ast.Call) and len(new.args) == 1 and not new.keywords and not isinstance(new.args[0], ast.Starred):
+            # attrgetter("a")(x) is x.a, methodcaller("m", y)(x) is x.m(y), partial(f, a)(x) is f(a, x)
+            r = _apply_callable(self.fi.module, new.func, new.args[0])
+            if not (isinstance(r, ast.Call) and isinstance(r.func, ast.Call)):
+                new = r
+        if isinstance(new, ast.Call) and isinstance(new.func, ast.Name) and new.func.id == "next" and len(new.args) == 1 and not new.keywords \
+                and isinstance(new.args[0], ast.Call) and isinstance(new.args[0].func, ast.Name) and new.args[0].func.id == "iter" \
+                and len(new.args[0].args) == 1 and not new.args[0].keywords and not isinstance(new.args[0].args[0], ast.Starred):
+            return ast.Subscript(value=new.args[0].args[0], slice=ast.Constant(value=0), ctx=ast.Load())     # the first element (of a sequence)
+        if obj and isinstance(new, ast.Call) and isinstance(new.func, ast.Attribute) and new.func.attr == "get" and len(new.args) == 1 and not new.keywords \
+                and not isinstance(new.args[0], ast.Starred):
+            # used as an object, ``d.get(k)`` is ``d[k]`` (None fails there)
+            return ast.Subscript(value=new.func.value, slice=new.args[0], ctx=ast.Load())
+        if isinstance(new, ast.Attribute) and isinstance(new.ctx, ast.Load):
+            return _project(self, new.value, new.attr) or new
+        if isinstance(new, ast.Subscript) and isinstance(new.ctx, ast.Load) and isinstance(const_value(new.slice), int) and not isinstance(const_value(new.slice), bool):
+            return _project(self, new.value, const_value(new.slice)) or new
         return new
+
+    def _common_component(self, e: ast.AST, depth: int):
+        """
+        e is a component (tuple element / record field) of the result of a new helper with several returns: if that component
+        is the same expression at every return, e is that expression.
+        """
+        comp = _component(self, e)
+        if comp is None or comp[1] is None:
+            return None
+        kv = self.helper_of(comp[0])
+        if kv is None:
+            return None
+        vals = {}
+        for r in [x for x in walk_no_nested(kv.fi.node) if isinstance(x, ast.Return)]:
+            te = _ret_elts(kv, r.value)
+            key = comp[1]
+            i = key if isinstance(key, int) else (te[1].index(key) if te is not None and te[1] and key in te[1] else None)
+            if te is None or i is None or i >= len(te[0]):
+                return None
+            x = kv._x(te[0][i], depth - 1, frozenset(), {}, te[0][i])
+            vals.setdefault(norm(x), x)
+        return next(iter(vals.values())) if len(vals) == 1 else None
+
+    def _value_def(self, name: str, at, obj: bool):
+        """
+        A local with several definitions of which exactly one is not the constant None / False: where the name is used as an
+        object (base of an attribute / item access: None fails there), or where a dominating fact says it is truthy / not
+        None, it holds that one definition.
+        """
+        if is_param(self.fi, name):
+            return None
+        defs = local_defs(self.fi, name)
+        real = [(val, i) for _st, val, i in defs if not (val is not None and i is None and (const_value(strip_cast(val)) is None or const_value(strip_cast(val)) is False))]
+        if len(defs) < 2 or len(real) != 1 or real[0][0] is None or real[0][1] is not None \
+                or name in {x.id for x in ast.walk(real[0][0]) if isinstance(x, ast.Name)}:
+            return None
+        if obj:
+            return real[0]
+        if at is None or not self.cfg.nodes_for(at):
+            return None
+        for f in facts_at(self.cfg, at):
+            l = strip_cast(f.left)
+            if isinstance(l, ast.Name) and l.id == name and (f.op == "truthy" and f.pos or f.op in ("is", "eq") and not f.pos and f.right is not None
+                                                          and (const_value(f.right) is None or const_value(f.right) is False)):
+                return real[0]
+        return None
 
     def one_def(self, name: str):
         """single_def(), also when the local is assigned the textually same call-free expression at several places (inlined copies)"""
@@ -147,6 +438,18 @@ class _View:
         if d is not None or is_param(self.fi, name):
             return d
         defs = local_defs(self.fi, name)
+
+        def keeps(val, i) -> bool:
+            # `x = x` / `a, x = (.., x)`: the definition keeps the current value (left behind by inlining)
+            val = strip_cast(val) if val is not None else None
+            if i is not None and isinstance(val, (ast.Tuple, ast.List)) and i < len(val.elts) and not any(isinstance(y, ast.Starred) for y in val.elts):
+                val = strip_cast(val.elts[i])
+            elif i is not None:
+                return False
+            return isinstance(val, ast.Name) and val.id == name
+        real = [(val, i) for _st, val, i in defs if not keeps(val, i)]
+        if len(real) == 1 and len(defs) > 1 and real[0][0] is not None:
+            return real[0]
         if len(defs) > 1 and all(val is not None and i is None for _, val, i in defs) and len({norm(val) for _, val, _i in defs}) == 1 \
                 and not any(isinstance(x, (ast.Call, ast.Await, ast.Yield, ast.YieldFrom, ast.NamedExpr)) for x in ast.walk(defs[0][1])) \
                 and name not in {x.id for x in ast.walk(defs[0][1]) if isinstance(x, ast.Name)}:
@@ -154,11 +457,18 @@ class _View:
         return None
 
     def _plain_unpack(self, name: str, idx: int) -> bool:
-        st = local_defs(self.fi, name)[0][0]
-        for t in getattr(st, "targets", None) or [getattr(st, "target", None)]:
-            if isinstance(t, (ast.Tuple, ast.List)) and idx < len(t.elts) and isinstance(t.elts[idx], ast.Name) and t.elts[idx].id == name:
-                return not any(isinstance(x, ast.Starred) for x in t.elts[:idx])
-        return False
+        found = False
+        for st, _val, i in local_defs(self.fi, name):
+            if i != idx:
+                continue
+            ok = False
+            for t in getattr(st, "targets", None) or [getattr(st, "target", None)]:
+                if isinstance(t, (ast.Tuple, ast.List)) and idx < len(t.elts) and isinstance(t.elts[idx], ast.Name) and t.elts[idx].id == name:
+                    ok = not any(isinstance(x, ast.Starred) for x in t.elts[:idx])
+            if not ok:
+                return False
+            found = True
+        return found
 
     def result_values(self) -> list[ast.AST] | None:
         """The non-constant values this function can return (None / False / True constants and falling off the end left out)."""
@@ -231,6 +541,20 @@ class _View:
             table, key = resolve(self.fi, f.value), f.slice
         elif isinstance(f, ast.Call) and isinstance(f.func, ast.Attribute) and f.func.attr == "get" and len(f.args) == 2 and not f.keywords:
             table, key, default = resolve(self.fi, f.func.value), f.args[0], f.args[1]
+        if isinstance(table, (ast.Tuple, ast.List)) and key is not None and default is None and isinstance(f, ast.Subscript) \
+                and not any(isinstance(x, ast.Starred) for x in table.elts):
+            # (f, g)[i]: a tuple display used as a table
+            out = []
+            for i, val in enumerate(table.elts):
+                alts = self._callable_alternatives(val, depth - 1)
+                if alts is None:
+                    return None
+                if len(table.elts) == 2 and _boolean_valued(resolve(self.fi, key)):
+                    sel = _atoms_with_polarity(key, i == 1)         # (f, g)[flag]: g iff the flag is true
+                else:
+                    sel = [fact_of(ast.Compare(left=key, ops=[ast.Eq()], comparators=[ast.Constant(value=i)]), True)]
+                out += [(r, fs + sel) for r, fs in alts]
+            return out
         if isinstance(table, ast.Dict) and key is not None and all(k is not None for k in table.keys):
             out = []
             for k, val in zip(table.keys, table.values):
@@ -453,6 +777,41 @@ def _completed_loop_facts(v: _View, site) -> list:
     return out
 
 
+def _membership_parts(mod, e: ast.AST, depth: int = 4) -> list[ast.AST] | None:
+    """
+    Containers A1..An such that ``x in e`` is ``x in A1 or .. or x in An``: itertools.chain(A1, ..), collections.ChainMap(A1, ..),
+    unions ``A1.keys() | set(A2) | ..``, displays ``{*A1, *A2}``.  None: e is not such a composition.
+    """
+    e = strip_cast(e)
+    if depth <= 0:
+        return None
+
+    def leaf(x: ast.AST) -> list[ast.AST]:
+        sub = _membership_parts(mod, x, depth - 1)
+        if sub is not None:
+            return sub
+        x = strip_cast(x)
+        if isinstance(x, ast.Call) and isinstance(x.func, ast.Attribute) and x.func.attr == "keys" and not x.args and not x.keywords:
+            return [x.func.value]           # membership in a keys view is membership in the dict
+        if isinstance(x, ast.Call) and len(x.args) == 1 and not x.keywords and any(_is_builtin(mod, x.func, n) for n in ("set", "frozenset", "list", "tuple", "iter")):
+            return leaf(x.args[0])
+        return [x]
+
+    if isinstance(e, ast.Call) and e.args and not e.keywords and not any(isinstance(a, ast.Starred) for a in e.args) \
+            and (_imported_as(mod, e.func, "itertools", ("chain",)) or _imported_as(mod, e.func, "collections", ("ChainMap",))):
+        return [p for a in e.args for p in leaf(a)]
+    if isinstance(e, ast.BinOp) and isinstance(e.op, ast.BitOr):
+        return leaf(e.left) + leaf(e.right)
+    if isinstance(e, ast.Call) and isinstance(e.func, ast.Attribute) and e.func.attr == "union" and e.args and not e.keywords \
+            and not any(isinstance(a, ast.Starred) for a in e.args):
+        return leaf(e.func.value) + [p for a in e.args for p in leaf(a)]
+    if isinstance(e, (ast.Set, ast.Tuple, ast.List)) and e.elts and all(isinstance(x, ast.Starred) for x in e.elts):
+        return [p for x in e.elts for p in leaf(x.value)]
+    if isinstance(e, ast.Call) and len(e.args) == 1 and not e.keywords and any(_is_builtin(mod, e.func, n) for n in ("set", "frozenset", "list", "tuple")):
+        return _membership_parts(mod, e.args[0], depth - 1)
+    return None
+
+
 def _xfacts(v: _View, site, *, depth: int = 3, local: bool = False, extra=(), fresh: bool = False) -> list[tuple]:
     """
     Facts that hold whenever `site` is evaluated in view v, in expanded form.  Besides the dominating CFG facts: a truthy / falsy
@@ -488,6 +847,10 @@ def _xfacts(v: _View, site, *, depth: int = 3, local: bool = False, extra=(), fr
                     for g in _atoms_with_polarity(inner, (k is True) == f.pos):
                         emit(g, d - 1)
             for side, other in ((f.left, f.right), (f.right, f.left)):
+                k = const_value(strip_cast(other))
+                if (k is True or k is False) and f.pos and not isinstance(const_value(strip_cast(side)), bool):
+                    emit(fact_of(side, k), d - 1)        # `x is True` / `x == True` holds: x is truthy; `x is False`: x is falsy
+            for side, other in ((f.left, f.right), (f.right, f.left)):
                 hc, k = _helper_call(v, side), _cv(v, other)
                 if hc is not None and k is not NOCONST:
                     if f.pos:
@@ -496,6 +859,13 @@ def _xfacts(v: _View, site, *, depth: int = 3, local: bool = False, extra=(), fr
                         may = lambda c, k=k: c is NOCONST or not (c is k if f.op == "is" or k is None or isinstance(k, bool) else c == k)   # noqa: E731
                     for t2 in _return_facts(v.helper_of(hc), d - 1, may, None, fresh):
                         put(t2)
+            return
+        if f.op == "in" and not f.pos and f.right is not None:
+            # x not in chain(A, B) / A.keys() | B.keys() / {*A, *B} / ChainMap(A, B): x is in none of them
+            parts = _membership_parts(v.fi.module, resolve(v.fi, f.right))
+            if parts is not None:
+                for x in parts:
+                    emit(fact_of(ast.Compare(left=f.left, ops=[ast.In()], comparators=[x]), False), d - 1)
             return
         if f.op != "truthy":
             return
@@ -566,19 +936,105 @@ def _return_facts(kv: _View, depth: int, may, truth: bool | None, fresh: bool = 
     return [t for t in per[0] if all(_tkey(t) in ks for ks in keys[1:])]
 
 
+def _marker_locals(v: _View) -> list[str]:
+    """locals with several definitions of which at least one is the plain constant None / False (outcome markers left by inlining / flags)"""
+    memo = v.__dict__.get("_markers")
+    if memo is None:
+        memo = []
+        for nm in sorted({x.id for x in ast.walk(v.fi.node) if isinstance(x, ast.Name) and isinstance(x.ctx, ast.Store)}):
+            d = local_defs(v.fi, nm)
+            if len(d) >= 2 and not is_param(v.fi, nm) and any(val is not None and i is None and const_value(strip_cast(val)) in (None, False)
+                                                                 and isinstance(const_value(strip_cast(val)), (type(None), bool)) for _s, val, i in d):
+                memo.append(nm)
+        v.__dict__["_markers"] = memo
+    return memo
+
+
+def _feasible_reach(v: _View, name: str, *, cut_out_normal=(), cut_nodes=()) -> set:
+    """
+    cfg.reach() refined by the value of one marker local: a node is reached in state 'none' (the local was last assigned the
+    constant None / False) or '?'; a condition outcome that contradicts the state (``x is not None`` / ``x`` truthy while x holds
+    None) is not taken.  Paths that exist in the graph but that no execution can follow are dropped this way.
+    """
+    cfg = v.cfg
+    cut_out_normal, cut_nodes = set(cut_out_normal), set(cut_nodes)
+
+    def after(n, st: str) -> str:
+        if name not in _bound_by(n):
+            return st
+        a = n.ast
+        if n.kind == "stmt" and isinstance(a, (ast.Assign, ast.AnnAssign)) and a.value is not None:
+            targets = a.targets if isinstance(a, ast.Assign) else [a.target]
+            if all(isinstance(t, ast.Name) for t in targets):
+                c = const_value(strip_cast(a.value))
+                if c is None or c is False:
+                    return "none"
+        return "?"
+
+    def contradicts(n, lab, st: str) -> bool:
+        if st == "?" or n.kind != "cond" or lab not in (True, False) or n.ast is None:
+            return False
+        f = fact_of(n.ast, lab)
+        l = strip_cast(f.left)
+        if not (isinstance(l, ast.Name) and l.id == name):
+            return False
+        if f.op == "truthy":
+            return st == "none" and f.pos
+        if f.op in ("is", "eq") and f.right is not None and const_value(strip_cast(f.right)) in (None, False) \
+                and isinstance(const_value(strip_cast(f.right)), (type(None), bool)):
+            return st == "none" and not f.pos       # `x is not None` cannot hold while x is None; ('real' may still be False / None: no cut)
+        return False
+
+    seen: set = set()
+    todo = [(cfg.entry, "?")] if cfg.entry not in cut_nodes else []
+    while todo:
+        n, st = todo.pop()
+        if (n, st) in seen:
+            continue
+        seen.add((n, st))
+        out = after(n, st)
+        for w, lab in n.succ:
+            if w in cut_nodes or (n in cut_out_normal and lab != "exc") or contradicts(n, lab, st):
+                continue
+            todo.append((w, st if lab == "exc" else out))
+    return {n for n, _st in seen}
+
+
 def _always(v: _View, nodes: list, event, *, local: bool = False, depth: int = 3) -> bool:
     """
     Every path to `nodes` (CFG nodes of view v) - from the entry of the outermost function unless local - has completed one of
-    the statements event(view) normally.  A call of a new helper counts when each of its normal exits has completed one; a
-    helper view inherits what holds at its call site.
+    the statements event(view) normally.  A call of a new helper counts when each of its normal exits has completed one, or
+    when the exits that have not return None / False (possibly as a component of a tuple / record) and a fact dominating the
+    nodes excludes that constant (decision helpers); a helper view inherits what holds at its call site.
     """
-    through = [n for a in event(v) for n in v.cfg.nodes_for(a)]
+    if not nodes:
+        return False
+    cfg = v.cfg
+    through = [n for a in event(v) for n in cfg.nodes_for(a)]
+    conditional = []
     if depth > 0:
         for c, kvs, complete in v.helper_calls():
-            if complete and kvs and all(_always(kv, [kv.cfg.exit], event, local=True, depth=depth - 1) for kv in kvs):
-                through += v.cfg.nodes_for(c)
-    if nodes and all(v.cfg.must_complete(n, through) for n in nodes):
+            if not complete or not kvs or not all(any(event(w) for w in kv.closure()) for kv in kvs):
+                continue
+            if all(_always(kv, [kv.cfg.exit], event, local=True, depth=depth - 1) for kv in kvs):
+                through += cfg.nodes_for(c)
+            elif len(kvs) == 1:
+                consts = _unverified_return_consts(kvs[0], lambda w, ns: _always(w, ns, event, local=True, depth=depth - 1))
+                if consts:
+                    conditional.append((c, consts))
+    # a node that evaluates the event itself (``return pop(..)``, ``x.keys = f(verify(..))``) acts after the event completed
+    def done(n, thr: list) -> bool:
+        if n in thr or cfg.must_complete(n, thr):
+            return True
+        # paths around the event may be infeasible: they set a marker local to None / False that a later test excludes
+        return any(n not in _feasible_reach(v, nm, cut_out_normal=[t for t in thr if t is not n]) for nm in _marker_locals(v))
+
+    if all(done(n, through) for n in nodes):
         return True
+    for c, consts in conditional:
+        cn = cfg.nodes_for(c)
+        if all(cfg.must_complete(n, through + cn) for n in nodes) and all(_result_excludes(v, c, consts, n) for n in nodes):
+            return True
     if not local and v.up is not None:
         return _always(v.up, v.up.cfg.nodes_for(v.site), event, depth=depth)
     return False
@@ -617,29 +1073,66 @@ def _is_pending_hop(ctx: Ctx, fi: FuncInfo, e: ast.AST | None, site: ast.AST) ->
             return False
     if any(call_name(c) in _HOP_WRITERS for c in calls(fi)):
         return False
-    cfg = ctx.cfg(fi)
+    cfg = _cfg_of(ctx, fi)
     through = [n for st in sts for n in cfg.nodes_for(st)]
     nodes = cfg.nodes_for(site)
     return bool(nodes) and all(cfg.must_complete(n, through) for n in nodes)
 
 
+def _retry_cache_call(v: "_View", c: ast.AST | None, name: str) -> bool:
+    """c is ``self.request_cache.<name>(RetryRequestCache, circuit.circuit_id)`` in the terms of the outermost function"""
+    c = strip_cast(c) if c is not None else None
+    return isinstance(c, ast.Call) and isinstance(c.func, ast.Attribute) and c.func.attr == name and v.xn(c.func.value) == "self.request_cache" \
+        and len(c.args) + len(c.keywords) == 2 and chain(arg(c, 0, "prefix")) == "RetryRequestCache" and v.xn(arg(c, 1, "number")) == "circuit.circuit_id"
+
+
+def _no_retry_cache_edge(v: "_View", u, lab) -> bool:
+    """the outcome `lab` of condition node u says that no RetryRequestCache is registered for the circuit (there is nothing to pop)"""
+    if u.kind != "cond" or lab not in (True, False) or u.ast is None:
+        return False
+    f = fact_of(u.ast, lab)
+    left = resolve(v.fi, f.left) if isinstance(strip_cast(f.left), ast.Name) else strip_cast(f.left)
+    if f.op == "truthy":
+        return not f.pos and (_retry_cache_call(v, left, "has") or _retry_cache_call(v, left, "get"))
+    if f.op in ("is", "eq") and f.right is not None:
+        k = const_value(strip_cast(f.right))
+        if k is None:
+            return f.pos and _retry_cache_call(v, left, "get")
+        if k is True or k is False:
+            return (k is False) == f.pos and _retry_cache_call(v, left, "has")
+    return False
+
+
+def _old_retry_cache_dropped(v: "_View", nodes: list, *, local: bool = False, depth: int = 3) -> bool:
+    """
+    On every path to `nodes` the RetryRequestCache of an earlier attempt is gone: ``request_cache.pop(RetryRequestCache,
+    circuit.circuit_id)`` was executed (it removes the entry, or raises KeyError because there is none - the path through
+    an ``except KeyError`` handler is as good as the false edge of ``has``), or a test said that there is none; a call of a new
+    helper counts when each of its normal exits has that property.
+    """
+    cfg = v.cfg
+    attempted, completed = [], []
+    for p in calls(v.fi):
+        if _retry_cache_call(v, p, "pop"):
+            st = enclosing_stmt(p)
+            val = strip_cast(st.value) if isinstance(st, (ast.Expr, ast.Assign, ast.AnnAssign)) and getattr(st, "value", None) is not None else None
+            (attempted if val is p else completed).extend(cfg.nodes_for(p))
+    if depth > 0:
+        for c, kvs, complete in v.helper_calls():
+            if complete and kvs and all(_old_retry_cache_dropped(kv, [kv.cfg.exit], local=True, depth=depth - 1) for kv in kvs):
+                completed += cfg.nodes_for(c)
+    r = cfg.reach(cut_nodes=[n for n in attempted if n not in nodes], cut_out_normal=[n for n in completed if n not in nodes],
+                  cut_edge=lambda u, w, lab: _no_retry_cache_edge(v, u, lab))
+    if nodes and all(n not in r for n in nodes):
+        return True
+    if not local and v.up is not None:
+        return _old_retry_cache_dropped(v.up, v.up.cfg.nodes_for(v.site), depth=depth)
+    return False
+
+
 def _old_retry_cache_dropped_before(ctx: Ctx, fi: FuncInfo, site: ast.AST) -> bool:
-    """
-    Every path entry -> site either completed ``self.request_cache.pop(RetryRequestCache, circuit.circuit_id)`` or took the
-    false edge of ``self.request_cache.has(RetryRequestCache, circuit.circuit_id)`` (there was nothing to pop).
-    """
-    cfg = ctx.cfg(fi)
-
-    def is_key(c: ast.AST, name: str) -> bool:
-        c = resolve(fi, c) if isinstance(c, ast.Name) else c
-        return isinstance(c, ast.Call) and chain(c.func) == f"self.request_cache.{name}" and chain(arg(c, 0)) == "RetryRequestCache" \
-            and _rnorm(fi, arg(c, 1)) == "circuit.circuit_id"
-
-    pops = [p for p in calls(fi) if is_key(p, "pop")]
-    pop_nodes = [n for p in pops for n in cfg.nodes_for(p)]
-    r = cfg.reach(cut_out_normal=pop_nodes, cut_edge=lambda u, v, lab: u.kind == "cond" and lab is False and is_key(u.ast, "has"))
-    nodes = cfg.nodes_for(site)
-    return bool(pops) and bool(nodes) and all(n not in r for n in nodes)
+    v = _View(ctx, fi)
+    return _old_retry_cache_dropped(v, v.cfg.nodes_for(site))
 
 
 def _flatten_ifexp(e: ast.AST) -> list[ast.AST]:
@@ -648,6 +1141,21 @@ def _flatten_ifexp(e: ast.AST) -> list[ast.AST]:
         return _flatten_ifexp(e.body) + _flatten_ifexp(e.orelse)
     if isinstance(e, ast.BoolOp) and isinstance(e.op, ast.Or):
         return [x for v in e.values for x in _flatten_ifexp(v)]      # `key or self.key` evaluates to one of its operands
+    if isinstance(e, ast.Call) and isinstance(e.func, ast.Name) and e.func.id == "next" and len(e.args) in (1, 2) and not e.keywords:
+        # next(filter(None, (a, b)), None) / next((k for k in (a, b) if k is not None), None): one of the elements (or the None default)
+        src = strip_cast(e.args[0])
+        if isinstance(src, ast.Call) and isinstance(src.func, ast.Name) and src.func.id == "iter" and len(src.args) == 1 and not src.keywords:
+            src = strip_cast(src.args[0])
+        its = None
+        if isinstance(src, ast.Call) and isinstance(src.func, ast.Name) and src.func.id == "filter" and len(src.args) == 2 and not src.keywords:
+            its = _seq_items(src.args[1])
+        elif isinstance(src, ast.GeneratorExp) and len(src.generators) == 1 and isinstance(src.generators[0].target, ast.Name) \
+                and isinstance(src.elt, ast.Name) and src.elt.id == src.generators[0].target.id and not src.generators[0].is_async:
+            its = _seq_items(src.generators[0].iter)       # a filtered selection of the elements themselves
+        else:
+            its = _seq_items(src)
+        if its and (len(e.args) == 1 or const_value(strip_cast(e.args[1])) is None):
+            return [x for v in its for x in _flatten_ifexp(v)]
     return [e]
 
 
@@ -689,33 +1197,195 @@ def _subst_name(e: ast.AST, name: str, by: ast.AST) -> ast.AST:
     return new
 
 
-def _concat_parts(e: ast.AST) -> list[ast.AST]:
-    """Operands of a bytes concatenation in order: ``a + b`` and ``b"".join((a, b))`` / ``b"".join([a, b])`` are the same value."""
+def _imported_as(mod, f: ast.AST, module: str, names: tuple[str, ...]) -> bool:
+    """f denotes <module>.<one of names>: spelled `module.name`, or a bare / aliased name imported from that module"""
+    f = strip_cast(f)
+    imports = getattr(mod, "imports", {}) if mod is not None else {}
+    if isinstance(f, ast.Attribute) and isinstance(f.value, ast.Name) and f.attr in names:
+        return imports.get(f.value.id, (f.value.id, None)) == (module, None) if mod is not None else f.value.id == module
+    if isinstance(f, ast.Name):
+        imp = imports.get(f.id)
+        if imp is not None:
+            return imp[0] == module and imp[1] in names
+        return mod is None and f.id in names
+    return False
+
+
+def _is_builtin(mod, f: ast.AST, name: str) -> bool:
+    return isinstance(f, ast.Name) and f.id == name and (mod is None or name not in getattr(mod, "imports", {}))
+
+
+def _apply_callable(mod, f: ast.AST, x: ast.AST) -> ast.AST:
+    """The expression ``f(x)`` with f spelled out where it is a lambda / partial / methodcaller / attrgetter / itemgetter."""
+    f = strip_cast(f)
+    if isinstance(f, ast.Lambda) and len(f.args.args) == 1 and not (f.args.posonlyargs or f.args.kwonlyargs or f.args.vararg or f.args.kwarg or f.args.defaults):
+        return _subst_name(f.body, f.args.args[0].arg, x)
+    if isinstance(f, ast.Call) and not any(isinstance(a, ast.Starred) for a in f.args) and not any(k.arg is None for k in f.keywords):
+        if _imported_as(mod, f.func, "operator", ("methodcaller",)) and f.args and isinstance(const_value(f.args[0]), str):
+            return ast.Call(func=ast.Attribute(value=clone(x), attr=const_value(f.args[0]), ctx=ast.Load()),
+                            args=[clone(a) for a in f.args[1:]], keywords=[clone(k) for k in f.keywords])
+        if _imported_as(mod, f.func, "functools", ("partial",)) and f.args:
+            return ast.Call(func=clone(f.args[0]), args=[clone(a) for a in f.args[1:]] + [clone(x)], keywords=[clone(k) for k in f.keywords])
+        if _imported_as(mod, f.func, "operator", ("attrgetter",)) and f.args and not f.keywords \
+                and all(isinstance(const_value(a), str) and const_value(a).isidentifier() for a in f.args):
+            parts = [ast.Attribute(value=clone(x), attr=const_value(a), ctx=ast.Load()) for a in f.args]
+            return parts[0] if len(parts) == 1 else ast.Tuple(elts=parts, ctx=ast.Load())
+        if _imported_as(mod, f.func, "operator", ("itemgetter",)) and f.args and not f.keywords:
+            parts = [ast.Subscript(value=clone(x), slice=clone(a), ctx=ast.Load()) for a in f.args]
+            return parts[0] if len(parts) == 1 else ast.Tuple(elts=parts, ctx=ast.Load())
+    return ast.Call(func=clone(f), args=[clone(x)], keywords=[])
+
+
+def _seq_items(e: ast.AST, mod=None, depth: int = 6) -> list[ast.AST] | None:
+    """
+    The elements, in order, of an expression that denotes a finite sequence / iterable whose length is evident: a tuple / list
+    display (also with starred parts), a comprehension or map() over one, list / tuple / iter / sorted-free wrappers,
+    itertools.chain, ``seq + seq``.  None: not evident.
+    """
+    e = strip_cast(e)
+    if depth <= 0:
+        return None
+    if isinstance(e, (ast.Tuple, ast.List)):
+        out = []
+        for x in e.elts:
+            if isinstance(x, ast.Starred):
+                sub = _seq_items(x.value, mod, depth - 1)
+                if sub is None:
+                    return None
+                out += sub
+            else:
+                out.append(x)
+        return out
+    if isinstance(e, (ast.GeneratorExp, ast.ListComp)) and len(e.generators) == 1:
+        g = e.generators[0]
+        its = _seq_items(g.iter, mod, depth - 1)
+        if its is not None and not g.ifs and not g.is_async and isinstance(g.target, ast.Name):
+            return [_subst_name(e.elt, g.target.id, x) for x in its]
+        return None
+    if isinstance(e, ast.BinOp) and isinstance(e.op, ast.Add):
+        a, b = _seq_items(e.left, mod, depth - 1), _seq_items(e.right, mod, depth - 1)
+        return a + b if a is not None and b is not None else None
+    if isinstance(e, ast.Call) and not e.keywords and not any(isinstance(a, ast.Starred) for a in e.args):
+        f = e.func
+        if len(e.args) == 1 and any(_is_builtin(mod, f, n) for n in ("list", "tuple", "iter")):
+            return _seq_items(e.args[0], mod, depth - 1)
+        if len(e.args) == 1 and _is_builtin(mod, f, "reversed"):
+            its = _seq_items(e.args[0], mod, depth - 1)
+            return its[::-1] if its is not None else None
+        if len(e.args) == 2 and _is_builtin(mod, f, "map"):
+            its = _seq_items(e.args[1], mod, depth - 1)
+            return [_apply_callable(mod, e.args[0], x) for x in its] if its is not None else None
+        if _imported_as(mod, f, "itertools", ("chain",)):
+            out = []
+            for a in e.args:
+                sub = _seq_items(a, mod, depth - 1)
+                if sub is None:
+                    return None
+                out += sub
+            return out
+        if isinstance(f, ast.Attribute) and f.attr == "from_iterable" and _imported_as(mod, f.value, "itertools", ("chain",)) and len(e.args) == 1:
+            outer = _seq_items(e.args[0], mod, depth - 1)
+            if outer is None:
+                return None
+            out = []
+            for a in outer:
+                sub = _seq_items(a, mod, depth - 1)
+                if sub is None:
+                    return None
+                out += sub
+            return out
+    return None
+
+
+def _is_empty_bytes(e: ast.AST) -> bool:
+    e = strip_cast(e)
+    return const_value(e) == b"" and isinstance(const_value(e), bytes) \
+        or isinstance(e, ast.Call) and isinstance(e.func, ast.Name) and e.func.id == "bytes" and not e.args and not e.keywords
+
+
+def _is_concat_fn(mod, f: ast.AST) -> bool:
+    """f is a two-argument function that returns ``a + b``: operator.add / operator.concat / ``lambda a, b: a + b``"""
+    f = strip_cast(f)
+    if _imported_as(mod, f, "operator", ("add", "concat", "__add__", "__concat__")):
+        return True
+    if isinstance(f, ast.Lambda) and len(f.args.args) == 2 and not (f.args.posonlyargs or f.args.kwonlyargs or f.args.vararg or f.args.kwarg or f.args.defaults):
+        a, b = (x.arg for x in f.args.args)
+        body = strip_cast(f.body)
+        return isinstance(body, ast.BinOp) and isinstance(body.op, ast.Add) and isinstance(body.left, ast.Name) and body.left.id == a \
+            and isinstance(body.right, ast.Name) and body.right.id == b
+    return False
+
+
+def _concat_parts(e: ast.AST, mod=None) -> list[ast.AST]:
+    """
+    Operands of a bytes concatenation in order.  The same value is computed by ``a + b``, ``b"".join(<a, b>)`` (any evident
+    sequence: display, comprehension, map(), chain()), ``bytes.join(b"", ..)``, ``operator.add(a, b)`` / ``operator.concat``,
+    ``functools.reduce(operator.add, <a, b>[, b""])`` and ``b"%b%b" % (a, b)``.
+    """
     e = strip_cast(e)
     if isinstance(e, ast.BinOp) and isinstance(e.op, ast.Add):
-        return _concat_parts(e.left) + _concat_parts(e.right)
-    if isinstance(e, ast.Call) and isinstance(e.func, ast.Attribute) and e.func.attr == "join" and const_value(e.func.value) == b"" \
-            and len(e.args) == 1 and not e.keywords:
-        seq = e.args[0]
-        if isinstance(seq, (ast.Tuple, ast.List)) and not any(isinstance(x, ast.Starred) for x in seq.elts):
-            return [p for x in seq.elts for p in _concat_parts(x)]
-        if isinstance(seq, (ast.GeneratorExp, ast.ListComp)) and len(seq.generators) == 1:
-            g = seq.generators[0]
-            it = strip_cast(g.iter)
-            if not g.ifs and not g.is_async and isinstance(g.target, ast.Name) and isinstance(it, (ast.Tuple, ast.List)) \
-                    and not any(isinstance(x, ast.Starred) for x in it.elts):
-                return [p for x in it.elts for p in _concat_parts(_subst_name(seq.elt, g.target.id, x))]
+        return _concat_parts(e.left, mod) + _concat_parts(e.right, mod)
+    if isinstance(e, ast.BinOp) and isinstance(e.op, ast.Mod) and isinstance(const_value(e.left), bytes):
+        fmt = const_value(e.left)
+        its = _seq_items(e.right, mod) if isinstance(strip_cast(e.right), ast.Tuple) else None
+        if its is not None and fmt in (b"%b" * len(its), b"%s" * len(its)) and its:
+            return [p for x in its for p in _concat_parts(x, mod)]
+    if isinstance(e, ast.Call) and not e.keywords and not any(isinstance(a, ast.Starred) for a in e.args):
+        seq = None
+        if isinstance(e.func, ast.Attribute) and e.func.attr == "join" and len(e.args) == 1 and _is_empty_bytes(e.func.value):
+            seq = e.args[0]
+        elif isinstance(e.func, ast.Attribute) and e.func.attr == "join" and len(e.args) == 2 and isinstance(e.func.value, ast.Name) \
+                and e.func.value.id == "bytes" and _is_empty_bytes(e.args[0]):
+            seq = e.args[1]
+        if seq is not None:
+            its = _seq_items(seq, mod)
+            if its is not None:
+                return [p for x in its for p in _concat_parts(x, mod)]
+        if len(e.args) == 2 and _is_concat_fn(mod, e.func):
+            return _concat_parts(e.args[0], mod) + _concat_parts(e.args[1], mod)
+        if len(e.args) in (2, 3) and _imported_as(mod, e.func, "functools", ("reduce",)) and _is_concat_fn(mod, e.args[0]):
+            its = _seq_items(e.args[1], mod)
+            if its is not None and (its or len(e.args) == 3):
+                first = [] if len(e.args) == 2 or _is_empty_bytes(e.args[2]) else _concat_parts(e.args[2], mod)
+                return first + [p for x in its for p in _concat_parts(x, mod)]
     return [e]
 
 
-def _prefix32(e: ast.AST) -> ast.AST | None:
-    """X if e is X[:32] (also spelled X[0:32]), else None."""
+def _slice_bounds(s: ast.AST, mod=None, repo=None, depth: int = 2):
+    """(lower, upper, step) expressions of a slice spelled ``a:b:c`` or ``slice(..)`` (also held in a module constant)"""
+    s = strip_cast(s)
+    if isinstance(s, ast.Slice):
+        return s.lower, s.upper, s.step
+    if isinstance(s, ast.Call) and isinstance(s.func, ast.Name) and s.func.id == "slice" and not s.keywords and 1 <= len(s.args) <= 3 \
+            and not any(isinstance(a, ast.Starred) for a in s.args):
+        a = list(s.args)
+        return (None, a[0], None) if len(a) == 1 else (a[0], a[1], a[2] if len(a) == 3 else None)
+    if isinstance(s, ast.Name) and repo is not None and mod is not None and depth > 0:
+        try:
+            r = repo.resolve_name(mod, s.id)
+        except Exception:  # noqa: BLE001
+            r = None
+        if isinstance(r, tuple) and len(r) == 3 and r[0] == "const":
+            return _slice_bounds(r[2], r[1], repo, depth - 1)
+    return None
+
+
+def _prefix32(e: ast.AST, mod=None, repo=None) -> ast.AST | None:
+    """X if e is the first 32 bytes of X: X[:32], X[0:32], X[slice(32)], operator.itemgetter(slice(0, 32))(X); else None."""
     e = strip_cast(e)
-    if isinstance(e, ast.Subscript) and isinstance(e.slice, ast.Slice):
-        s = e.slice
-        if (s.lower is None or const_value(s.lower) == 0) and s.upper is not None and const_value(s.upper) == 32 \
-                and (s.step is None or const_value(s.step) == 1):
-            return e.value
+    if isinstance(e, ast.Call) and len(e.args) == 1 and not e.keywords and isinstance(e.func, ast.Call) \
+            and _imported_as(mod, e.func.func, "operator", ("itemgetter",)) and len(e.func.args) == 1 and not e.func.keywords:
+        e = ast.Subscript(value=e.args[0], slice=e.func.args[0], ctx=ast.Load())
+    if isinstance(e, ast.Call) and len(e.args) == 2 and not e.keywords and _imported_as(mod, e.func, "operator", ("getitem",)):
+        e = ast.Subscript(value=e.args[0], slice=e.args[1], ctx=ast.Load())
+    if isinstance(e, ast.Subscript):
+        b = _slice_bounds(e.slice, mod, repo)
+        if b is not None:
+            lo, up, step = b
+            none = lambda x: x is None or const_value(x) is None      # noqa: E731
+            if (none(lo) or const_value(lo) == 0 and const_value(lo) is not False) and up is not None and const_value(up) == 32 \
+                    and const_value(up) is not True and (none(step) or const_value(step) == 1):
+                return e.value
     return None
 
 
@@ -725,6 +1395,51 @@ def _is_randbelow(fi: FuncInfo, c: ast.AST) -> bool:
     if chain(c.func) == "secrets.randbelow":
         return fi.module.imports.get("secrets", ("secrets", None))[0] == "secrets"
     return isinstance(c.func, ast.Name) and fi.module.imports.get(c.func.id) == ("secrets", "randbelow")
+
+
+def _is_random_16_bit(repo, fi: FuncInfo, c: ast.AST) -> bool:
+    """c draws a uniform value from [0, 2**16) from the secrets module: randbelow(65536) or randbits(16)"""
+    if _is_randbelow(fi, c):
+        return repo.resolve_const(fi.module, c.args[0]) == 65536 or _fold_int(repo, fi.module, c.args[0]) == 65536
+    return isinstance(c, ast.Call) and len(c.args) == 1 and not c.keywords and _imported_as(fi.module, c.func, "secrets", ("randbits",)) \
+        and _fold_int(repo, fi.module, c.args[0]) == 16
+
+
+def _fold_int(repo, mod, e: ast.AST, depth: int = 4):
+    """integer value of a constant expression (+ - * ** << and module constants); None if unknown"""
+    e = strip_cast(e)
+    c = const_value(e)
+    if isinstance(c, int) and not isinstance(c, bool):
+        return c
+    if depth <= 0:
+        return None
+    if isinstance(e, ast.BinOp):
+        a, b = _fold_int(repo, mod, e.left, depth - 1), _fold_int(repo, mod, e.right, depth - 1)
+        if a is None or b is None:
+            return None
+        if isinstance(e.op, ast.Add):
+            return a + b
+        if isinstance(e.op, ast.Sub):
+            return a - b
+        if isinstance(e.op, ast.Mult):
+            return a * b
+        if isinstance(e.op, ast.Pow) and 0 <= b <= 64:
+            return a ** b
+        if isinstance(e.op, ast.LShift) and 0 <= b <= 64:
+            return a << b
+        return None
+    if isinstance(e, ast.Name):
+        try:
+            r = repo.resolve_name(mod, e.id)
+        except Exception:  # noqa: BLE001
+            return None
+        if isinstance(r, tuple) and len(r) == 3 and r[0] == "const":
+            return _fold_int(repo, r[1], r[2], depth - 1)
+    try:
+        c = repo.resolve_const(mod, e)
+    except Exception:  # noqa: BLE001
+        return None
+    return c if isinstance(c, int) and not isinstance(c, bool) else None
 
 
 # ------------------------------------------------------------------------------------ the answer handlers and what they accept
@@ -798,6 +1513,23 @@ def _accept_sites(views: list[_View]) -> list[tuple[_View, ast.AST, str]]:
     return out
 
 
+def _stored_value(st: ast.stmt, target: ast.AST) -> ast.AST | None:
+    """the expression stored into `target` by assignment st (element-wise for ``a, b = x, y``); None if not evident"""
+    if isinstance(st, ast.AnnAssign):
+        return st.value if st.target is target else None
+    if not isinstance(st, ast.Assign):
+        return None
+    for t in st.targets:
+        if t is target:
+            return st.value
+        if isinstance(t, (ast.Tuple, ast.List)) and any(x is target for x in t.elts):
+            val = strip_cast(st.value)
+            if isinstance(val, (ast.Tuple, ast.List)) and len(val.elts) == len(t.elts) and not any(isinstance(x, ast.Starred) for x in list(val.elts) + list(t.elts)):
+                return val.elts[[x is target for x in t.elts].index(True)]
+            return None
+    return None
+
+
 def _store_target(st: ast.stmt, suffix: str) -> ast.AST | None:
     ts = st.targets if isinstance(st, (ast.Assign, ast.Delete)) else [st.target]
     for t in ts:
@@ -805,6 +1537,59 @@ def _store_target(st: ast.stmt, suffix: str) -> ast.AST | None:
             if isinstance(e, ast.Attribute) and e.attr == suffix:
                 return e
     return None
+
+
+def _ret_elts(kv: _View, val: ast.AST | None) -> tuple[list[ast.AST], list[str] | None] | None:
+    """(elements, field names or None) of a returned tuple display / NamedTuple / dataclass construction; None if `val` is neither"""
+    val = strip_cast(val) if val is not None else None
+    if isinstance(val, ast.Tuple):
+        return (list(val.elts), None) if not any(isinstance(x, ast.Starred) for x in val.elts) else None
+    if isinstance(val, ast.Call) and isinstance(val.func, ast.Name):
+        try:
+            cls = kv.ctx.repo.resolve_name(kv.fi.module, val.func.id)
+        except Exception:  # noqa: BLE001
+            return None
+        fields = _record_fields(cls) if hasattr(cls, "methods") and isinstance(getattr(cls, "node", None), ast.ClassDef) else None
+        if fields:
+            elts = [_project(kv, val, f) for f in fields]
+            if all(x is not None for x in elts):
+                return elts, fields
+    return None
+
+
+def _component(v: _View, e: ast.AST | None) -> tuple[ast.Call, object] | None:
+    """
+    (call, key) if e denotes the result of a call (key None) or one component of it: a tuple-unpacking target (key = index),
+    ``r[i]`` (index) or ``r.field`` (name) of a single-assignment local r bound to the call.
+    """
+    if e is None:
+        return None
+    key = None
+    for _ in range(8):
+        e = strip_cast(e)
+        if isinstance(e, ast.Await):
+            e = e.value
+        elif key is None and isinstance(e, ast.Attribute) and isinstance(strip_cast(e.value), (ast.Name, ast.Call)):
+            key, e = e.attr, e.value
+        elif key is None and isinstance(e, ast.Subscript) and isinstance(const_value(e.slice), int) and not isinstance(const_value(e.slice), bool) \
+                and isinstance(strip_cast(e.value), (ast.Name, ast.Call)):
+            key, e = const_value(e.slice), e.value
+        elif isinstance(e, ast.Name) and not is_param(v.fi, e.id):
+            d = local_defs(v.fi, e.id)
+            if len(d) != 1 or d[0][1] is None:
+                return None
+            val, idx = strip_cast(d[0][1]), d[0][2]
+            if idx is None:
+                e = val
+            elif isinstance(val, (ast.Tuple, ast.List)) and idx < len(val.elts) and not any(isinstance(x, ast.Starred) for x in val.elts):
+                e = val.elts[idx]           # `a, b = (x, y)`
+            elif key is None:
+                key, e = idx, val
+            else:
+                return None
+        else:
+            break
+    return (e, key) if isinstance(e, ast.Call) else None
 
 
 def _unverified_return_consts(kv: _View, verified_local) -> dict | None:
@@ -824,10 +1609,11 @@ def _unverified_return_consts(kv: _View, verified_local) -> dict | None:
     tuples = []
     for r in bad:
         val = strip_cast(r.value) if r.value is not None else None
+        te = _ret_elts(kv, val)
         if val is None:
             whole.add(None)
-        elif isinstance(val, ast.Tuple) and not any(isinstance(x, ast.Starred) for x in val.elts):
-            tuples.append(val)
+        elif te is not None:
+            tuples.append(te)
             whole_ok = False
         elif const_value(val) is None or const_value(val) is False:
             whole.add(const_value(val))
@@ -836,58 +1622,65 @@ def _unverified_return_consts(kv: _View, verified_local) -> dict | None:
     out: dict = {}
     if whole_ok and whole:
         out[None] = whole
-    if tuples and len(tuples) == len(bad) and not falls_off and len({len(t.elts) for t in tuples}) == 1:
-        for i in range(len(tuples[0].elts)):
-            cs = {const_value(t.elts[i]) for t in tuples}
+    if tuples and len(tuples) == len(bad) and not falls_off and len({len(t[0]) for t in tuples}) == 1 and len({tuple(t[1] or ()) for t in tuples}) == 1:
+        for i in range(len(tuples[0][0])):
+            cs = {const_value(strip_cast(t[0][i])) for t in tuples}
             if all(c is None or c is False for c in cs):
                 out[i] = cs
+                if tuples[0][1]:
+                    out[tuples[0][1][i]] = cs
     return out or None
+
+
+def _deferred_call(v: _View, c: ast.Call) -> ast.Call | None:
+    """
+    ``loop.run_in_executor(executor, f, *args)`` / ``asyncio.to_thread(f, *args)`` / ``partial(f, *args)`` run (or stand for)
+    ``f(*args)``: that call, built from the original argument nodes and hung below c so that it has c's place in the CFG.
+    """
+    f = strip_cast(c.func)
+    name = f.attr if isinstance(f, ast.Attribute) else f.id if isinstance(f, ast.Name) else None
+    skip = {"run_in_executor": 1, "to_thread": 0, "partial": 0}.get(name)
+    if skip is None or c.keywords and name != "partial" or len(c.args) <= skip or any(isinstance(a, ast.Starred) for a in c.args):
+        return None
+    ref = strip_cast(c.args[skip])
+    if isinstance(ref, ast.Call):
+        inner = _deferred_call(v, ref)          # run_in_executor(None, partial(f, a, b))
+        return inner if inner is not None and len(c.args) == skip + 1 else None
+    if not isinstance(ref, (ast.Attribute, ast.Name)):
+        return None
+    syn = ast.Call(func=ref, args=list(c.args[skip + 1:]), keywords=list(c.keywords) if name == "partial" else [])
+    ast.copy_location(syn, c)
+    syn._parent = c
+    return syn
+
+
+def _verify_calls(v: _View) -> list[ast.Call]:
+    """calls of verify_and_generate_shared_secret in view v, also when handed to an executor / thread / partial with their arguments"""
+    cached = v.__dict__.get("_verify_calls")
+    if cached is None:
+        cached = [c for c in calls(v.fi) if call_name(c) == VERIFY]
+        for c in calls(v.fi):
+            d = _deferred_call(v, c)
+            if d is not None and call_name(d) == VERIFY:
+                cached.append(d)
+        v.__dict__["_verify_calls"] = cached
+    return cached
 
 
 def _verified_at(v: _View, nodes: list, *, local: bool = False, depth: int = 3) -> bool:
     """
     Every path to `nodes` has seen verify_and_generate_shared_secret return normally: directly, inside a new helper all of
     whose normal exits follow the verification, or inside a new decision helper whose unverified exits return None / False
-    (possibly as an element of a tuple) while a dominating fact on the result excludes that constant.
+    (possibly as an element of a tuple / record) while a dominating fact on the result excludes that constant.
     """
-    if not nodes:
-        return False
-    cfg = v.cfg
-    through = [n for c in calls(v.fi) if call_name(c) == VERIFY for n in cfg.nodes_for(c)]
-    conditional = []
-    if depth > 0:
-        for c, kvs, complete in v.helper_calls():
-            if not complete or not kvs or not all(any(call_name(x) == VERIFY for w in kv.closure() for x in calls(w.fi)) for kv in kvs):
-                continue
-            kv = kvs[0]
-            if all(_verified_at(k2, [k2.cfg.exit], local=True, depth=depth - 1) for k2 in kvs):
-                through += cfg.nodes_for(c)
-            elif len(kvs) == 1:
-                consts = _unverified_return_consts(kv, lambda w, ns: _verified_at(w, ns, local=True, depth=depth - 1))
-                if consts:
-                    conditional.append((c, consts))
-    if all(cfg.must_complete(n, through) for n in nodes):
-        return True
-    for c, consts in conditional:
-        cn = cfg.nodes_for(c)
-        if all(cfg.must_complete(n, through + cn) for n in nodes) and all(_result_excludes(v, c, consts, n) for n in nodes):
-            return True
-    if not local and v.up is not None:
-        return _verified_at(v.up, v.up.cfg.nodes_for(v.site), depth=depth)
-    return False
+    return _always(v, nodes, _verify_calls, local=local, depth=depth)
 
 
 def _result_excludes(v: _View, c: ast.Call, consts: dict, node) -> bool:
     """A fact dominating `node` says that the result of call c (or the tuple element bound from it) is not one of the constants."""
     def which(e: ast.AST):
-        e = strip_cast(e)
-        if e is c:
-            return None, True
-        if isinstance(e, ast.Name) and not is_param(v.fi, e.id):
-            d = local_defs(v.fi, e.id)
-            if len(d) == 1 and d[0][1] is not None and strip_cast(d[0][1]) is c:
-                return d[0][2], True
-        return None, False
+        comp = _component(v, e)
+        return (comp[1], True) if comp is not None and comp[0] is c else (None, False)
 
     for f in facts_at(v.cfg, node):
         idx, hit = which(f.left)
@@ -907,27 +1700,770 @@ def _result_excludes(v: _View, c: ast.Call, consts: dict, node) -> bool:
 
 def _key_values(v: _View, e: ast.AST, depth: int = 3) -> list[ast.AST]:
     """Expanded values `e` can have; the result of a new helper stands for its non-constant return values (the caller excluded the constants)."""
-    r = resolve(v.fi, e)
-    idx = None
-    if isinstance(r, ast.Name) and not is_param(v.fi, r.id):
-        d = local_defs(v.fi, r.id)
-        if len(d) == 1 and d[0][1] is not None and d[0][2] is not None:
-            r, idx = strip_cast(d[0][1]), d[0][2]
-    kv = v.helper_of(r) if isinstance(r, ast.Call) else None
+    comp = _component(v, e)
+    kv = v.helper_of(comp[0]) if comp is not None else None
     if kv is None or depth <= 0:
         return [v.expand(e)]
+    idx = comp[1]
     out = []
     for ret in [x for x in walk_no_nested(kv.fi.node) if isinstance(x, ast.Return)]:
         val = strip_cast(ret.value) if ret.value is not None else None
         if idx is not None:
-            if not isinstance(val, ast.Tuple) or idx >= len(val.elts):
+            te = _ret_elts(kv, val)
+            i = idx if isinstance(idx, int) else (te[1].index(idx) if te is not None and te[1] and idx in te[1] else None)
+            if te is None or i is None or i >= len(te[0]):
                 out.append(v.expand(e))
                 continue
-            val = val.elts[idx]
-        if val is None or const_value(val) is None or const_value(val) is False:
+            val = te[0][i]
+        if val is None or const_value(strip_cast(val)) is None or const_value(strip_cast(val)) is False:
             continue
         out += _key_values(kv, val, depth - 1)
     return out or [v.expand(e)]
+
+
+# ---- reachability under an assumption about the pending attempt (three-valued evaluation of conditions)
+class _Assume:
+    """
+    What is assumed about the RetryRequestCache of the circuit an answer names:
+      absent - there is none (request_cache.get(..) is None, has(..) is False): no handshake is pending for the circuit
+      stale  - there is one, but its packet_identifier differs from the identifier of the answer (another / an earlier attempt)
+      match  - there is one and its packet_identifier equals the identifier of the answer (the awaited answer)
+    """
+
+    def __init__(self, payload: str, mode: str) -> None:
+        self.mode = mode
+        self.get = f"self.request_cache.get(RetryRequestCache, {payload}.circuit_id)"
+        self.has = f"self.request_cache.has(RetryRequestCache, {payload}.circuit_id)"
+        self.ident = f"{payload}.identifier"
+        self.pair = {f"{self.get}.packet_identifier", self.ident}
+
+
+def _a_value(e: ast.AST, A: _Assume, mod=None, depth: int = 12):
+    """the expression (already in the outermost function's terms) simplified under assumption A"""
+    e = strip_cast(e)
+    if depth <= 0:
+        return e
+    n = norm(e)
+    if n == A.get:
+        return ast.Constant(value=None) if A.mode == "absent" else e
+    if n == A.has:
+        return ast.Constant(value=A.mode != "absent")
+    if isinstance(e, ast.NamedExpr):
+        return _a_value(e.value, A, mod, depth - 1)
+    if isinstance(e, ast.IfExp):
+        t = _a_truth(e.test, A, mod, depth - 1)
+        return e if t is None else _a_value(e.body if t else e.orelse, A, mod, depth - 1)
+    if isinstance(e, ast.BoolOp):
+        for x in e.values[:-1]:
+            t = _a_truth(x, A, mod, depth - 1)
+            if t is None:
+                return e
+            if t is isinstance(e.op, ast.Or):
+                return _a_value(x, A, mod, depth - 1)       # `a or b` with a truthy is a; `a and b` with a falsy is a
+        return _a_value(e.values[-1], A, mod, depth - 1)
+    if isinstance(e, ast.Attribute):
+        b = _a_value(e.value, A, mod, depth - 1)
+        return e if b is strip_cast(e.value) else ast.Attribute(value=b, attr=e.attr, ctx=ast.Load())
+    if isinstance(e, ast.Call) and isinstance(e.func, ast.Name) and e.func.id == "getattr" and len(e.args) in (2, 3) and not e.keywords \
+            and isinstance(const_value(e.args[1]), str):
+        b = _a_value(e.args[0], A, mod, depth - 1)
+        if isinstance(b, ast.Constant) and b.value is None and len(e.args) == 3:
+            return _a_value(e.args[2], A, mod, depth - 1)       # None has no such attribute: the default
+        if norm(b) == A.get and A.mode != "absent":
+            return ast.Attribute(value=b, attr=const_value(e.args[1]), ctx=ast.Load())
+    return e
+
+
+def _a_not_none(e: ast.AST, A: _Assume) -> bool:
+    if isinstance(e, ast.Constant):
+        return e.value is not None
+    n = norm(e)
+    # packet_identifier is an int (checked: secrets.randbelow), the identifier of an answer is an unpacked 16 bit wire field
+    return A.mode != "absent" and n == A.get or n == f"{A.get}.packet_identifier" or n == A.ident
+
+
+def _a_truth(e: ast.AST, A: _Assume, mod=None, depth: int = 12):
+    """True / False if the truth value of e is determined by assumption A, else None"""
+    e = strip_cast(e)
+    if depth <= 0:
+        return None
+    if isinstance(e, ast.UnaryOp) and isinstance(e.op, ast.Not):
+        t = _a_truth(e.operand, A, mod, depth - 1)
+        return None if t is None else not t
+    if isinstance(e, ast.BoolOp):
+        ts = [_a_truth(x, A, mod, depth - 1) for x in e.values]
+        dom = isinstance(e.op, ast.Or)
+        if any(t is dom for t in ts):
+            return dom
+        return (not dom) if all(t is (not dom) for t in ts) else None
+    if isinstance(e, ast.Call) and len(e.args) == 1 and not e.keywords and (_is_builtin(mod, e.func, "bool") or _imported_as(mod, e.func, "operator", ("truth",))):
+        return _a_truth(e.args[0], A, mod, depth - 1)
+    if isinstance(e, ast.Call) and len(e.args) == 1 and not e.keywords and _imported_as(mod, e.func, "operator", ("not_",)):
+        t = _a_truth(e.args[0], A, mod, depth - 1)
+        return None if t is None else not t
+    cmp = None
+    if isinstance(e, ast.Compare) and len(e.ops) == 1:
+        cmp = (type(e.ops[0]), e.left, e.comparators[0])
+    elif isinstance(e, ast.Call) and len(e.args) == 2 and not e.keywords:
+        for names, op in ((("eq",), ast.Eq), (("ne",), ast.NotEq), (("is_",), ast.Is), (("is_not",), ast.IsNot)):
+            if _imported_as(mod, e.func, "operator", names):
+                cmp = (op, e.args[0], e.args[1])
+    if cmp is not None:
+        op, l, r = cmp[0], _a_value(cmp[1], A, mod, depth - 1), _a_value(cmp[2], A, mod, depth - 1)
+        l, r = (ast.Constant(value=const_value(x)) if not isinstance(x, ast.Constant) and const_value(x) is not NOCONST and not isinstance(x, ast.Tuple) else x
+                for x in (l, r))
+        if op in (ast.Is, ast.IsNot, ast.Eq, ast.NotEq):
+            pos = op in (ast.Is, ast.Eq)
+            res = None
+            wire = [x for x in (l, r) if norm(x) in A.pair]          # a 16 bit identifier: an int in [0, 65535]
+            other = [x for x in (l, r) if isinstance(x, ast.Constant)]
+            if len(wire) == 1 and len(other) == 1 and not (isinstance(other[0].value, int) and not isinstance(other[0].value, bool) and 0 <= other[0].value <= 65535):
+                res = False         # a sentinel (None, -1, ..) never equals / is an identifier
+            elif isinstance(l, ast.Constant) and isinstance(r, ast.Constant):
+                res = (l.value is r.value) if op in (ast.Is, ast.IsNot) or l.value is None or r.value is None else (l.value == r.value)
+            elif any(isinstance(x, ast.Constant) and x.value is None for x in (l, r)) and any(_a_not_none(x, A) for x in (l, r)):
+                res = False
+            elif op in (ast.Eq, ast.NotEq) and A.mode != "absent" and {norm(l), norm(r)} == A.pair:
+                res = A.mode == "match"
+            return None if res is None else res is pos
+        return None
+    v = _a_value(e, A, mod, depth - 1)
+    if isinstance(v, ast.Constant):
+        return bool(v.value)
+    if A.mode != "absent" and norm(v) == A.get:
+        return True         # a NumberCache object: truthy
+    return None
+
+
+def _a_atom_truth(v: _View, atom: ast.AST, A: _Assume, depth: int = 2, env: dict | None = None):
+    """
+    truth of a condition atom of view v under A; the result of a new decision helper (or a component of the tuple / record it
+    returns) is the common outcome of its returns that are reachable under A
+    """
+    t = _a_truth(v.expand(atom, env=env), A, v.fi.module)
+    if t is not None or depth <= 0:
+        return t
+    e = strip_cast(atom)
+    neg = False
+    while isinstance(e, ast.UnaryOp) and isinstance(e.op, ast.Not):
+        e, neg = strip_cast(e.operand), not neg
+    want = None        # (positive, constant) of a comparison `<result> is / == constant`
+    if isinstance(e, ast.Compare):
+        if len(e.ops) != 1 or not isinstance(e.ops[0], (ast.Is, ast.IsNot, ast.Eq, ast.NotEq)):
+            return None
+        for side, other in ((e.left, e.comparators[0]), (e.comparators[0], e.left)):
+            k = _cv(v, other)
+            comp = _component(v, side)
+            if comp is not None and v.helper_of(comp[0]) is not None and k is not NOCONST:
+                want, e = (isinstance(e.ops[0], (ast.Is, ast.Eq)), k), side
+                break
+        if want is None:
+            return None
+    comp = _component(v, e)
+    kv = v.helper_of(comp[0]) if comp is not None else None
+    if kv is None:
+        return None
+    key = comp[1]
+    cut = _a_cut(kv, A, depth - 1)
+    r = kv.cfg.reach(cut_edge=cut)
+    outs = set()
+    rets = [x for x in walk_no_nested(kv.fi.node) if isinstance(x, ast.Return)]
+    if kv.cfg.exit in kv.cfg.reach(cut_nodes=[n for x in rets for n in kv.cfg.nodes_for(x)], cut_edge=cut):
+        outs.add(_a_outcome(None, want) if key is None else None)        # falls off the end: returns None
+    for x in rets:
+        if not any(n in r for n in kv.cfg.nodes_for(x)):
+            continue
+        val = x.value
+        if key is not None:
+            te = _ret_elts(kv, val)
+            i = key if isinstance(key, int) else (te[1].index(key) if te is not None and te[1] and key in te[1] else None)
+            if te is None or i is None or i >= len(te[0]):
+                return None
+            val = te[0][i]
+        if want is None:
+            outs.add(False if val is None else _a_atom_truth(kv, val, A, depth - 1))
+        else:
+            outs.add(_a_outcome(_cv(kv, val) if val is not None else None, want))
+    if len(outs) != 1 or None in outs:
+        return None
+    t = outs.pop()
+    return (not t) if neg else t
+
+
+def _a_outcome(c, want):
+    """truth of `<returned constant c> is/== k` (want = (positive, k)); None if c is not a known constant"""
+    if want is None:
+        return None if c is NOCONST else bool(c)
+    if c is NOCONST:
+        return None
+    pos, k = want
+    same = c is k if c is None or k is None or isinstance(c, bool) or isinstance(k, bool) else c == k
+    return same is pos
+
+
+def _bound_by(n) -> set[str]:
+    """local names (re)bound when CFG node n executes"""
+    a = n.ast
+    if a is None:
+        return set()
+    roots: list = []
+    if n.kind == "loop" and isinstance(a, (ast.For, ast.AsyncFor)):
+        roots = [a.target]
+    elif n.kind == "handler" and isinstance(a, ast.ExceptHandler):
+        return {a.name} if a.name else set()
+    elif isinstance(a, (ast.With, ast.AsyncWith)):
+        roots = [i.optional_vars for i in a.items if i.optional_vars is not None] + [i.context_expr for i in a.items]
+    elif isinstance(a, (ast.FunctionDef, ast.AsyncFunctionDef, ast.ClassDef)):
+        return {a.name}
+    elif isinstance(a, (ast.Import, ast.ImportFrom)):
+        return {(x.asname or x.name).split(".")[0] for x in a.names}
+    elif isinstance(a, (ast.While, ast.If, ast.Try, ast.Match)):
+        return set()
+    else:
+        roots = [a]
+    return {x.id for r in roots for x in walk_no_nested(r) if isinstance(x, ast.Name) and isinstance(x.ctx, (ast.Store, ast.Del))}
+
+
+_A_CAP = 4
+
+
+def _a_truths(v: _View, A: _Assume, depth: int = 2) -> dict:
+    """
+    id(condition node) -> truth under A (True / False / None) for view v.  Locals with several definitions (a decision written
+    as ``x = ..`` in the branches of an if, as inlining leaves it) are followed along the control flow: each node gets the set of
+    values such a local can hold there, given that condition outcomes contradicting A are not taken.
+    """
+    memo = v.__dict__.setdefault("_a_truths_memo", {})
+    key = (A.mode, A.get, depth)
+    if key in memo:
+        return memo[key]
+    cfg = v.cfg
+    conds = [n for n in cfg.nodes if n.kind == "cond" and n.ast is not None]
+    tracked = {nm for nm in {x.id for x in ast.walk(v.fi.node) if isinstance(x, ast.Name)}
+               if len(local_defs(v.fi, nm)) > 1 or (is_param(v.fi, nm) and local_defs(v.fi, nm))}
+    used = {id(n): {x.id for x in ast.walk(n.ast) if isinstance(x, ast.Name)} & tracked for n in conds}
+    if not any(used.values()):
+        memo[key] = {id(n): _a_atom_truth(v, n.ast, A, depth) for n in conds}
+        return memo[key]
+
+    def choices(names: set, st: dict):
+        """environments name -> value for the tracked names an expression mentions (None: some value is unknown / too many)"""
+        envs = [{}]
+        for nm in sorted(names):
+            vals = st.get(nm)
+            if not vals or len(envs) * len(vals) > 2 * _A_CAP:
+                return None
+            envs = [dict(e, **{nm: x}) for e in envs for x in vals]
+        return envs
+
+    def truth(n, st: dict):
+        envs = choices(used[id(n)], st)
+        if envs is None:
+            return _a_atom_truth(v, n.ast, A, depth)
+        ts = {_a_atom_truth(v, n.ast, A, depth, env) for env in envs}
+        return ts.pop() if len(ts) == 1 else None
+
+    def assign(st: dict, target: ast.AST, value: ast.AST | None) -> None:
+        if isinstance(target, ast.Name):
+            if target.id not in tracked:
+                return
+            envs = choices({x.id for x in ast.walk(value) if isinstance(x, ast.Name)} & tracked, st) if value is not None else None
+            if envs is None:
+                st.pop(target.id, None)
+                return
+            vals: dict = {}
+            for env in envs:
+                x = v.expand(value, env=env)
+                vals.setdefault(norm(x), x)
+            if len(vals) > _A_CAP:
+                st.pop(target.id, None)
+            else:
+                st[target.id] = tuple(vals.values())
+        elif isinstance(target, (ast.Tuple, ast.List)):
+            te = _ret_elts(v, value) if value is not None else None
+            if te is None and isinstance(strip_cast(value), ast.List) and not any(isinstance(x, ast.Starred) for x in strip_cast(value).elts):
+                te = (list(strip_cast(value).elts), None)
+            if te is not None and len(te[0]) == len(target.elts) and not any(isinstance(x, ast.Starred) for x in target.elts):
+                old = dict(st)          # the right-hand side is evaluated before any target is bound
+                for t, x in zip(target.elts, te[0]):
+                    tmp = dict(old)
+                    assign(tmp, t, x)
+                    for nm in {y.id for y in ast.walk(t) if isinstance(y, ast.Name)}:
+                        if nm in tmp:
+                            st[nm] = tmp[nm]
+                        else:
+                            st.pop(nm, None)
+            else:
+                for nm in {y.id for y in ast.walk(target) if isinstance(y, ast.Name) and isinstance(y.ctx, ast.Store)}:
+                    st.pop(nm, None)
+
+    def transfer(n, st: dict) -> dict:
+        bound = _bound_by(n) & tracked
+        if not bound:
+            return st
+        out = dict(st)
+        a = n.ast
+        if n.kind == "stmt" and isinstance(a, ast.Assign) and not any(isinstance(x, ast.NamedExpr) for x in ast.walk(a)):
+            for t in a.targets:
+                assign(out, t, a.value)
+        elif n.kind == "stmt" and isinstance(a, ast.AnnAssign) and a.value is not None and not any(isinstance(x, ast.NamedExpr) for x in ast.walk(a)):
+            assign(out, a.target, a.value)
+        else:
+            for nm in bound:
+                out.pop(nm, None)
+        return out
+
+    def join(a: dict, b: dict) -> dict:
+        out = {}
+        for nm in a.keys() & b.keys():
+            vals = {norm(x): x for x in a[nm]}
+            for x in b[nm]:
+                vals.setdefault(norm(x), x)
+            if len(vals) <= _A_CAP:
+                out[nm] = tuple(vals.values())
+        return out
+
+    def same(a: dict, b: dict) -> bool:
+        return a.keys() == b.keys() and all({norm(x) for x in a[k]} == {norm(x) for x in b[k]} for k in a)
+
+    init = {}
+    for nm in tracked:
+        if is_param(v.fi, nm):
+            init[nm] = (clone(v.bind[nm]) if nm in v.bind else ast.Name(id=nm, ctx=ast.Load()),)
+    state: dict = {cfg.entry: init}
+    todo = [cfg.entry]
+    steps = 0
+    while todo and steps < 4000:
+        steps += 1
+        n = todo.pop()
+        st = state[n]
+        out = transfer(n, st)
+        t = truth(n, st) if n.kind == "cond" and n.ast is not None else None
+        for w, lab in n.succ:
+            if t is not None and lab in (True, False) and lab is not t:
+                continue
+            nxt = st if lab == "exc" else out
+            if w not in state:
+                state[w] = dict(nxt)
+                todo.append(w)
+            else:
+                j = join(state[w], nxt)
+                if not same(j, state[w]):
+                    state[w] = j
+                    todo.append(w)
+    res = {}
+    for n in conds:
+        res[id(n)] = truth(n, state[n]) if n in state and not todo else (_a_atom_truth(v, n.ast, A, depth) if todo else None)
+    memo[key] = res
+    return res
+
+
+def _a_cut(v: _View, A: _Assume, depth: int = 2):
+    truths = _a_truths(v, A, depth)
+
+    def cut(u, w, lab) -> bool:
+        if u.kind != "cond" or lab not in (True, False) or u.ast is None:
+            return False
+        t = truths.get(id(u))
+        return t is not None and t is not lab
+    return cut
+
+
+def _a_reach(v: _View, A: _Assume, depth: int = 2) -> set:
+    """CFG nodes of view v that can be reached when A holds (condition outcomes that contradict A are not taken)"""
+    return v.cfg.reach(cut_edge=_a_cut(v, A, depth))
+
+
+def _a_refuted(v: _View, nodes: list, A: _Assume) -> bool:
+    """`nodes` of view v cannot be reached when A holds: not inside v, or v's call site cannot be reached in its caller"""
+    r = _a_reach(v, A)
+    if nodes and all(n not in r for n in nodes):
+        return True
+    return v.up is not None and _a_refuted(v.up, v.up.cfg.nodes_for(v.site), A)
+
+
+def _answer_effect_sites(views: list[_View]) -> list[tuple[_View, ast.AST]]:
+    """what processing an answer does: verification, acceptance of keys / the hop, tear-down, the next extend, consuming the retry cache"""
+    out = [(v, s) for v, s, _k in _accept_sites(views)]
+    for v in views:
+        out += [(v, c) for c in _verify_calls(v)]
+        for c in calls(v.fi):
+            if call_name(c) in ("remove_circuit", "send_extend", "send_initial_create") \
+                    or isinstance(c.func, ast.Attribute) and c.func.attr in ("pop", "add") and v.xn(c.func.value) == "self.request_cache":
+                out.append((v, c))
+    return out
+
+
+_MUTATORS = frozenset({"pop", "popitem", "clear", "update", "setdefault", "__setitem__", "__delitem__", "append", "extend", "insert", "remove", "add",
+                        "discard", "appendleft", "popleft"})
+
+
+def _effects_of(v: _View, node_ast: ast.AST, cls) -> list[tuple[ast.AST, str]]:
+    """
+    What a statement / condition does beyond reading and logging, as far as it is evident: calls of reviewed methods of the
+    community itself (they send, tear down, schedule ..), changes of the request cache, stores into / mutating methods on the
+    community's attributes.  Calls that cannot be resolved are left alone (not evident).
+    """
+    out = []
+    for x in walk_no_nested(node_ast):
+        if isinstance(x, ast.Call):
+            c = chain(x.func) or ""
+            if c.startswith(("self.logger.", "logger.", "logging.", "self._logger.")):
+                continue
+            f = strip_cast(x.func)
+            if isinstance(f, ast.Attribute) and f.attr in _MUTATORS and (v.xn(f.value) or "").startswith("self."):
+                out.append((x, f"`{norm(x)[:70]}` changes {v.xn(f.value)}"))
+                continue
+            if isinstance(f, ast.Attribute) and v.xn(f.value) == "self" and cls is not None:
+                try:
+                    targets = v.ctx.repo.resolve_call(v.fi, x)       # all overriding definitions
+                except Exception:  # noqa: BLE001
+                    targets = []
+                hit = [k for k in targets if not _is_new(k) and k.cls is not None and (k.cls is cls or cls.is_subclass_of(k.cls.name) or k.cls.is_subclass_of(cls.name))]
+                if hit:
+                    out.append((x, f"`{norm(x)[:70]}` runs {hit[0].qualname}"))
+        elif isinstance(x, (ast.Attribute, ast.Subscript)) and isinstance(x.ctx, (ast.Store, ast.Del)):
+            base = x.value
+            while isinstance(base, (ast.Attribute, ast.Subscript)):
+                base = base.value
+            if (v.xn(base) or "").split(".")[0].split("[")[0] == "self":
+                out.append((x, f"`{norm(enclosing_stmt(x))[:70]}` changes {norm(x)}"))
+    return out
+
+
+def _rejection_nodes(v: _View, A: _Assume, memo: dict) -> set:
+    """
+    CFG nodes of view v that run for an answer that is not the awaited one (A: no attempt pending / another identifier) but
+    never for the awaited one: reachable when A holds, not reachable when the pending attempt matches the answer.  A new
+    helper called from such a node is such code as a whole.
+    """
+    key = (id(v), A.mode)
+    if key in memo:
+        return memo[key]
+    memo[key] = set()
+    r1 = v.cfg.reach(cut_edge=_a_cut(v, A))
+    payload = A.ident.rsplit(".", 1)[0]
+    rm = v.cfg.reach(cut_edge=_a_cut(v, _Assume(payload, "match")))
+    out = {n for n in r1 if n not in rm}
+    if v.up is not None:
+        site = set(v.up.cfg.nodes_for(v.site))
+        if site and site <= _rejection_nodes(v.up, A, memo):
+            out = set(r1)
+    memo[key] = out
+    return out
+
+
+# ---- after the hop was appended, the retry of that hop is released before anything the answer carries can abort the handler
+_MATCHED_FIELDS = ("circuit_id", "identifier")      # compared with the pending attempt before the acceptance: not the sender's choice any more
+
+
+def _answer_data(v: _View, e: ast.AST | None, payload: str, tainted: set) -> bool:
+    """
+    e is computed from data the answer carries: a field of the payload other than circuit_id / identifier (those were matched
+    against the pending attempt), the payload as a whole, or a local derived from such a value.
+    """
+    if e is None or not isinstance(e, ast.AST):
+        return False
+    e = strip_cast(e)
+    if isinstance(e, ast.Attribute) and isinstance(strip_cast(e.value), ast.Name):
+        b = strip_cast(e.value)
+        if _is_answer(v, b.id, payload):
+            return e.attr not in _MATCHED_FIELDS
+        return b.id in tainted
+    if isinstance(e, ast.Name):
+        return e.id in tainted or _is_answer(v, e.id, payload)
+    if isinstance(e, (ast.Lambda, ast.FunctionDef, ast.AsyncFunctionDef, ast.ClassDef)):
+        return False
+    return any(_answer_data(v, x, payload, tainted) for x in ast.iter_child_nodes(e))
+
+
+def _is_answer(v: _View, name: str, payload: str) -> bool:
+    """the local / parameter `name` of view v holds the payload object of the answer"""
+    memo = v.__dict__.setdefault("_is_answer_memo", {})
+    if name not in memo:
+        memo[name] = False
+        if v.up is None and name == payload and is_param(v.fi, name) and not local_defs(v.fi, name):
+            memo[name] = True
+        elif name in v.bind and not local_defs(v.fi, name):
+            memo[name] = norm(v.bind[name]) == payload
+        elif not is_param(v.fi, name):
+            d = v.one_def(name)
+            memo[name] = d is not None and d[1] is None and isinstance(strip_cast(d[0]), ast.Name) and _is_answer(v, strip_cast(d[0]).id, payload)
+    return memo[name]
+
+
+def _answer_locals(v: _View, payload: str) -> set:
+    """locals / parameters of view v that hold data derived from the answer (flow-insensitive: any definition counts)"""
+    memo = v.__dict__.get("_answer_locals")
+    if memo is not None:
+        return memo
+    tainted: set = set()
+    v.__dict__["_answer_locals"] = tainted
+    up = _answer_locals(v.up, payload) if v.up is not None else set()
+    for p_, b in v.bind.items():
+        # a parameter bound to an argument that is answer data in the caller (the binding is in the outermost function's terms:
+        # a payload field, or a name that is tainted in some caller)
+        if not _is_answer(v, p_, payload) and (_answer_data(_root(v), b, payload, set()) or any(isinstance(x, ast.Name) and x.id in up for x in ast.walk(b))):
+            tainted.add(p_)
+    names = {x.id for x in ast.walk(v.fi.node) if isinstance(x, ast.Name) and isinstance(x.ctx, ast.Store)}
+    changed = True
+    while changed:
+        changed = False
+        for nm in names - tainted:
+            for st, val, _i in local_defs(v.fi, nm):
+                src = val if val is not None else getattr(st, "iter", None) or getattr(st, "value", None)
+                if src is not None and _answer_data(v, src, payload, tainted):
+                    tainted.add(nm)
+                    changed = True
+                    break
+    return tainted
+
+
+def _node_exprs(n) -> list[ast.AST]:
+    a = n.ast
+    if a is None or n.kind not in ("stmt", "cond"):
+        return []
+    if isinstance(a, (ast.With, ast.AsyncWith)):
+        return [i.context_expr for i in a.items]
+    if isinstance(a, (ast.FunctionDef, ast.AsyncFunctionDef, ast.ClassDef, ast.Try, ast.If, ast.While, ast.For, ast.AsyncFor, ast.Match)):
+        return []
+    return [a]
+
+
+_TOTAL_BUILTINS = frozenset({"range", "enumerate", "zip", "iter", "reversed", "len", "list", "tuple", "set", "frozenset", "dict", "bool", "isinstance", "cast", "repr", "id", "type"})
+
+
+def _loop_index(v: _View, e: ast.AST) -> bool:
+    """e is built from constants and the targets of for-loops over range(..) / enumerate(..) with + and - only (a running index)"""
+    e = strip_cast(e)
+    names = [x for x in ast.walk(e) if isinstance(x, ast.Name)]
+    if not names or any(not isinstance(x, (ast.Name, ast.Constant, ast.BinOp, ast.Add, ast.Sub, ast.Load, ast.UnaryOp, ast.USub)) for x in ast.walk(e)):
+        return False
+    for nm in names:
+        d = local_defs(v.fi, nm.id)
+        if is_param(v.fi, nm.id) or not d:
+            return False
+        for st, _val, _i in d:
+            it = strip_cast(st.iter) if isinstance(st, (ast.For, ast.AsyncFor)) else None
+            if not (isinstance(it, ast.Call) and isinstance(it.func, ast.Name) and it.func.id in ("range", "enumerate")):
+                return False
+    return True
+
+
+_PURE_READS = frozenset({"get", "keys", "values", "items", "copy", "count", "index", "startswith", "endswith", "hex"})
+
+
+class _PostAccept:
+    """
+    What can happen between the acceptance of a hop (``circuit.add_hop``) and the release of the retry of that hop
+    (``request_cache.pop(RetryRequestCache, <circuit id>)`` attempted, or ``remove_circuit(<circuit id>)``): the statements that
+    run in between ('unreleased'), and among them the ones that can raise on what the answer carries.  An exception of such a
+    statement is followed along the exceptional edges (through except clauses, out of helpers into their callers) to see
+    whether it can end the handler - by leaving it, or by being swallowed up to a return - while the retry is still registered.
+    """
+
+    def __init__(self, ctx: Ctx, payload: str, circ: str) -> None:
+        self.ctx, self.payload, self.circ = ctx, payload, circ
+        self.findings: list = []          # (view, origin ast, how)
+        self.examined: list = []          # (view, origin ast, released: bool) answer-consuming raising constructs seen after the acceptance
+        self.exits: set = set()           # (function, 'return') ends reached in unreleased state by ordinary control flow
+        self.region: set = set()          # (function, node id) statements / conditions that run between the acceptance and the release
+        self.raisers: set = set()         # ... of which have an exceptional edge (were examined for answer-consuming constructs)
+        self._done: set = set()
+
+    # -- release
+    def release_calls(self, x: _View) -> list[ast.AST]:
+        ids = (f"{self.payload}.circuit_id", f"{self.circ}.circuit_id")
+        out = []
+        for p in calls(x.fi):
+            f = strip_cast(p.func)
+            if not isinstance(f, ast.Attribute):
+                continue
+            if f.attr == "pop" and x.xn(f.value) == "self.request_cache" and len(p.args) + len(p.keywords) == 2 \
+                    and chain(arg(p, 0, "prefix")) == "RetryRequestCache" and x.xn(arg(p, 1, "number")) in ids:
+                out.append(p)
+            elif f.attr == "remove_circuit" and x.xn(f.value) == "self" and arg(p, 0, "circuit_id") is not None and x.xn(arg(p, 0, "circuit_id")) in ids:
+                out.append(p)
+        return out
+
+    def cuts(self, v: _View) -> tuple[list, list]:
+        """(nodes that release when entered - the release call is the whole statement -, nodes that release when they complete normally)"""
+        memo = v.__dict__.get("_release_cuts")
+        if memo is None:
+            attempted, completed = [], []
+            for p in self.release_calls(v):
+                st = enclosing_stmt(p)
+                val = strip_cast(st.value) if isinstance(st, (ast.Expr, ast.Assign, ast.AnnAssign)) and getattr(st, "value", None) is not None else None
+                (attempted if val is p else completed).extend(v.cfg.nodes_for(p))
+            for c, kvs, complete in v.helper_calls():
+                if complete and kvs and all(_always(kv, [kv.cfg.exit], self.release_calls, local=True) for kv in kvs):
+                    completed += v.cfg.nodes_for(c)
+            memo = v.__dict__["_release_cuts"] = (attempted, completed)
+        return memo
+
+    def reach(self, v: _View, starts) -> set:
+        attempted, completed = self.cuts(v)
+        return v.cfg.reach([s for s in starts if s not in attempted], cut_nodes=attempted, cut_out_normal=completed)
+
+    # -- raising on answer data
+    def raising(self, v: _View, n) -> list[tuple[_View, ast.AST]]:
+        """constructs evaluated by node n whose exception (on data of the answer) can leave n by its exceptional edge"""
+        if not any(lab == "exc" for _w, lab in n.succ):
+            return []
+        attempted, completed = self.cuts(v)
+        if n in attempted:
+            return []
+        tainted = _answer_locals(v, self.payload)
+        released = {id(p) for p in self.release_calls(v)}
+        out = []
+        for root in _node_exprs(n):
+            for x in walk_no_nested(root):
+                if isinstance(x, ast.Call) and id(x) not in released:
+                    kvs = v.views_of(x)
+                    if kvs:
+                        if len(kvs) == len(v.call_targets(x)):
+                            for kv in kvs:
+                                out += self.escapes(kv)
+                            continue
+                    c = chain(x.func) or ""
+                    from ..cfg import call_may_raise
+                    if not call_may_raise(x) or c.startswith(("self.logger.", "logger.")) or c in _TOTAL_BUILTINS and c not in v.fi.module.imports:
+                        continue
+                    f = strip_cast(x.func)
+                    recv = f.value if isinstance(f, ast.Attribute) else None
+                    operands = list(x.args) + [k.value for k in x.keywords] + ([recv] if recv is not None else [])
+                    if isinstance(f, ast.Attribute) and f.attr in _PURE_READS and not any(_answer_data(v, a, self.payload, tainted) for a in list(x.args) + [k.value for k in x.keywords]):
+                        continue
+                    if any(_answer_data(v, a, self.payload, tainted) for a in operands):
+                        out.append((v, x))
+                elif isinstance(x, ast.Subscript) and isinstance(x.ctx, ast.Load) and not isinstance(x.slice, ast.Slice) \
+                        and (_answer_data(v, x.value, self.payload, tainted) or _answer_data(v, x.slice, self.payload, tainted)) \
+                        and not _loop_index(v, x.slice):
+                    out.append((v, x))      # an index / key taken from, or applied to, answer data (not the running index of a loop over its length)
+                elif isinstance(x, ast.Await) and _answer_data(v, x.value, self.payload, tainted):
+                    out.append((v, x))
+        return out
+
+    def escapes(self, kv: _View) -> list[tuple[_View, ast.AST]]:
+        """answer-consuming constructs inside helper view kv (run from its entry) whose exception leaves kv while nothing was released"""
+        memo = kv.__dict__.get("_pa_escapes")
+        if memo is None:
+            kv.__dict__["_pa_escapes"] = memo = []
+            esc, _after = self.scan(kv, [kv.cfg.entry], [])
+            memo.extend(esc)
+        return memo
+
+    # -- the walk
+    def scan(self, v: _View, starts: list, pending: list) -> tuple[list, list]:
+        """
+        starts: nodes of v where execution continues after the acceptance, nothing released yet.
+        pending: (origin, nodes) - nodes of v where execution continues after `origin` raised, nothing released yet.
+        Returns (origins whose exception leaves v unreleased, origins after which v returns normally unreleased).
+        """
+        cfg = v.cfg
+        unreleased = self.reach(v, starts)
+        work = list(pending)
+        seen_nodes = set(unreleased)
+        todo = list(unreleased)
+        escaped, swallowed = [], []
+        handled: set = set()
+        while todo or work:
+            while todo:
+                n = todo.pop()
+                if n.kind in ("stmt", "cond") and n.ast is not None:
+                    self.region.add((v.fi.qualname, n.id))
+                    if any(lab == "exc" for _w, lab in n.succ):
+                        self.raisers.add((v.fi.qualname, n.id))
+                for kvv, origin in self.raising(v, n):
+                    key = (id(origin), id(n))
+                    if key not in handled:
+                        handled.add(key)
+                        work.append(((kvv, origin), [w for w, lab in n.succ if lab == "exc"]))
+            if work:
+                origin, nodes = work.pop()
+                r = self.reach(v, nodes)
+                bad = False
+                if cfg.raise_exit in r:
+                    escaped.append(origin)
+                    bad = True
+                if cfg.exit in r:
+                    swallowed.append(origin)
+                    bad = True
+                self.examined.append((origin[0], origin[1], not bad, v))
+                for n in r:
+                    if n not in seen_nodes:
+                        seen_nodes.add(n)
+                        todo.append(n)
+        if cfg.exit in unreleased:
+            self.exits.add((v.fi.qualname, "return"))
+        return escaped, swallowed
+
+    def run_from(self, v: _View, starts: list, pending: list) -> None:
+        key = (id(v), tuple(sorted(n.id for n in starts)), tuple(sorted((id(o[1]), tuple(sorted(n.id for n in ns))) for o, ns in pending)))
+        if key in self._done:
+            return
+        self._done.add(key)
+        escaped, swallowed = self.scan(v, starts, pending)
+        normal_out = v.cfg.exit in self.reach(v, starts) if starts else False
+        if v.up is None:
+            for o in escaped:
+                self.findings.append((o, "leaves", v))
+            for o in swallowed:
+                self.findings.append((o, "swallowed", v))
+            return
+        site = v.up.cfg.nodes_for(v.site)
+        nxt_pending = [(o, [w for n in site for w, lab in n.succ if lab == "exc"]) for o in escaped] \
+            + [(o, [w for n in site for w, lab in n.succ if lab != "exc"]) for o in swallowed]
+        nxt_starts = [w for n in site for w, lab in n.succ if lab != "exc"] if normal_out else []
+        if any(not ns for _o, ns in nxt_pending):
+            raise AnalysisError(f"undecided: the call of {v.fi.qualname} in {v.up.fi.qualname} has no exceptional edge although the callee can raise")
+        if nxt_starts or nxt_pending:
+            self.run_from(v.up, nxt_starts, nxt_pending)
+
+
+def rule_release_after_accept(ctx: Ctx) -> None:
+    """
+    Once ``circuit.add_hop(hop)`` has run, the RetryRequestCache of the hop that just answered must not be able to fire any more.
+    Everything the answer still carries (the encrypted candidate list ..) is chosen by whoever produced or touched the cell: a
+    statement that consumes it can be made to raise.  If that can end the handler while the cache is registered, the cache times
+    out and runs its retry function (send_initial_create / send_extend with the OLD candidates) for a hop position that is
+    already filled: a peer the originator never reached through the preceding hops is appended to the hop list.
+    """
+    acc = [(r, c, w) for r, c, w, _sel in _acceptances(ctx) if w is not None]
+    if not acc:
+        raise AnalysisError("undecided: no call of _ours_on_created_extended from on_created / on_extended whose arguments can be bound")
+    n_sites = 0
+    for r, c, w in acc:
+        payload, circ, _hop = _circuit_terms(r)
+        pa = _PostAccept(ctx, payload, circ)
+        accepts = [(v, s) for v, s, kind in _accept_sites(w.closure()) if kind == "add_hop"]
+        n_sites += len(accepts)
+        for v, s in accepts:
+            nodes = v.cfg.nodes_for(s)
+            pa.run_from(v, [x for n in nodes for x, lab in n.succ if lab != "exc"], [])
+        reported: set = set()
+        for (ov, origin), how, endv in pa.findings:
+            if id(origin) in reported:
+                continue
+            reported.add(id(origin))
+            end = "its exception leaves" if how == "leaves" else "its exception is caught and the handler returns from"
+            ctx.violation("release-after-accept", ov.fi, origin,
+                          f"after circuit.add_hop(..) `{norm(origin)[:70]}` in {ov.fi.qualname} consumes data of the answer (sender-controlled: a bit flip in "
+                          f"the candidate list is enough) and can raise; {end} {endv.fi.qualname} on a path on which neither "
+                          "request_cache.pop(RetryRequestCache, <circuit id>) nor remove_circuit(<circuit id>) has run. The RetryRequestCache of the hop "
+                          "that was just appended stays registered, times out and re-runs its retry function for a hop position that is already "
+                          "filled: an alternative peer is contacted directly and appended behind the accepted hop although it was never reached through it")
+        ok_origins = {id(o) for (ov, o, ok, _ev) in pa.examined if ok} - reported
+        for (ov, o, ok, _ev) in pa.examined:
+            if id(o) in ok_origins:
+                ok_origins.discard(id(o))
+                ctx.instance("release-after-accept", ov.fi.where, f"`{norm(o)[:60]}` raising before the release is caught and leads to a release", line=getattr(o, "lineno", 0))
+        ctx.instance("release-after-accept", w.fi.where,
+                     f"{_root(r).fi.qualname}: {len(accepts)} add_hop site(s); {len(pa.region)} statements / conditions can run between add_hop and the "
+                     f"release of the retry cache, {len(pa.raisers)} of them can raise; "
+                     f"{len({id(o) for _v, o, _ok, _e in pa.examined})} of these consume data of the answer; "
+                     f"unreleased ordinary ends: {sorted(pa.exits) or 'none'}")
+    ctx.floor("release-after-accept", n_sites, 2)
 
 
 def rule_identifier(ctx: Ctx) -> None:
@@ -966,21 +2502,74 @@ def rule_identifier(ctx: Ctx) -> None:
         args_ok = False
         if w is not None:
             views = w.closure()
-            touched = [v.xn(x.func.value) for v, x, kind in _accept_sites(views) if kind == "add_hop" and isinstance(x.func, ast.Attribute)]
-            touched += [v.xn(getattr(_store_target(x, "unverified_hop"), "value", None)) for v, x, kind in _accept_sites(views) if kind == "pending"]
+            touched = [v.xn(x.func.value, obj=True) for v, x, kind in _accept_sites(views) if kind == "add_hop" and isinstance(x.func, ast.Attribute)]
+            touched += [v.xn(getattr(_store_target(x, "unverified_hop"), "value", None), obj=True) for v, x, kind in _accept_sites(views) if kind == "pending"]
             args_ok = bool(touched) and all(t == circ for t in touched) and not local_defs(_root(r).fi, payload)
-        ctx.check(bool(gets) and ident_ok and args_ok, "identifier-match", fi, c,
+        guard_ok = bool(gets) and ident_ok
+        if not guard_ok:
+            # the test may be spelled differently or sit in the callee: whatever processing an answer does must be out of
+            # reach both when no attempt is pending for the circuit and when the pending attempt has another identifier
+            sites = _answer_effect_sites(w.closure()) if w is not None else [(r, c)]
+            guard_ok = bool(sites) and all(_a_refuted(v, v.cfg.nodes_for(s), A) for v, s in sites
+                                           for A in (_Assume(payload, "absent"), _Assume(payload, "stale")))
+        ctx.check(guard_ok and args_ok, "identifier-match", fi, c,
                   "answer accepted only if a RetryRequestCache for payload.circuit_id exists and its packet_identifier == payload.identifier",
                   "a created/extended answer with a wrong identifier, for another circuit, or after the attempt was abandoned is processed",
                   [f"{op}{'' if pos else '-not'}: {norm(l)}{' / ' + norm(rt) if rt is not None else ''}" for op, pos, l, rt in xf])
+    # ---- an answer that is not the awaited one has no effect: whatever runs only because no attempt is pending / the identifier
+    # differs may log, nothing else (a CREATED / EXTENDED that is unauthenticated at this point must not drive state changes)
+    memo: dict = {}
+    seen_views: set = set()
+    for r, c, w, sel in accs:
+        payload = _circuit_terms(r)[0]
+        root = _root(r)
+        for v in root.closure() + (w.closure() if w is not None else []):
+            if id(v) in seen_views:
+                continue
+            seen_views.add(id(v))
+            reported: set = set()
+            for A in (_Assume(payload, "absent"), _Assume(payload, "stale")):
+                for nd in _rejection_nodes(v, A, memo):
+                    a = nd.ast
+                    if a is None or nd.kind not in ("stmt", "cond") or isinstance(a, (ast.With, ast.AsyncWith, ast.FunctionDef, ast.AsyncFunctionDef, ast.ClassDef)):
+                        continue
+                    for x, what in _effects_of(v, a, root.fi.cls):
+                        if id(x) not in reported:
+                            reported.add(id(x))
+                            ctx.violation("identifier-match", v.fi, x,
+                                          f"{root.fi.qualname} reacts to an answer that does not belong to the pending attempt (no RetryRequestCache for the "
+                                          f"circuit, or another packet_identifier: duplicate, replay, forged or late answer) with more than a log line: {what}. "
+                                          "Such an answer must have no effect; here anyone who can send a created/extended cell for the circuit id "
+                                          "drives this code against a circuit whose hops are established")
+            ctx.instance("identifier-match", v.fi.where, f"code of {v.fi.qualname} that runs only for an unexpected answer has no effect besides logging")
     ctx.floor("identifier-match", n, 2)
+    # ---- a new attempt is started from the acceptance only after the retry cache of the hop just accepted was consumed
+    for r, c, w, sel in accs:
+        if w is None:
+            continue
+        payload, circ, _hop = _circuit_terms(r)
+
+        def retry_pops(x: _View) -> list[ast.AST]:
+            return [p for p in calls(x.fi) if isinstance(p.func, ast.Attribute) and p.func.attr == "pop" and x.xn(p.func.value) == "self.request_cache"
+                    and len(p.args) + len(p.keywords) == 2 and chain(arg(p, 0, "prefix")) == "RetryRequestCache"
+                    and x.xn(arg(p, 1, "number")) in (f"{payload}.circuit_id", f"{circ}.circuit_id")]
+
+        for v in w.closure():
+            for x in calls(v.fi):
+                if call_name(x) in ("send_extend", "send_initial_create") and isinstance(x.func, ast.Attribute) and v.xn(x.func.value) == "self":
+                    ctx.check(_always(v, v.cfg.nodes_for(x), retry_pops), "identifier-match", v.fi, x,
+                              f"`{norm(x)[:50]}` runs only after request_cache.pop(RetryRequestCache, <circuit id>) completed",
+                              f"{v.fi.qualname} starts the next attempt with `{norm(x)[:60]}` while the RetryRequestCache of the hop that was just accepted can "
+                              "still be registered (it is only looked up, or popped on some paths only): the callee replaces it only if it gets that far "
+                              "(it can raise on a malformed candidate first). The stale cache then times out and re-runs its retry function for a hop "
+                              "position that is already filled - a peer is contacted and appended that is not the next hop of the circuit")
     # packet_identifier: random, assigned once
     init = repo.method("RetryRequestCache", "__init__", CA)
     sts = [s for s, t in stores(init, "self.packet_identifier")]
     ok = len(sts) == 1 and isinstance(sts[0], (ast.Assign, ast.AnnAssign)) and sts[0].value is not None
     if ok:
         v = resolve(init, sts[0].value)
-        ok = _is_randbelow(init, v) and repo.resolve_const(init.module, v.args[0]) == 65536
+        ok = _is_random_16_bit(repo, init, v)
     ctx.check(ok, "identifier-match", init, init.node, "packet_identifier = secrets.randbelow(2**16) per attempt",
               "the per-attempt identifier is not a fresh 16-bit random value")
     for m, fi, a in repo.attribute_uses("packet_identifier"):
@@ -998,19 +2587,42 @@ def rule_identifier(ctx: Ctx) -> None:
             # the identifier sent is the one of the cache constructed (once) and registered here, whatever locals carry it
             (cv_, ctor), (pv, pcall) = ctors[0], pls[0]
             ct = cv_.xn(ctor)
-            pa = _pargs(pcall, ["circuit_id", "identifier", "node_public_key", "key", "node_addr"][:5 if pl == "ExtendPayload" else 4])
+            pa = _pargs(pcall, ["circuit_id", "identifier", "node_public_key", "key", "node_addr"][:5 if pl == "ExtendPayload" else 4], pv.fi)
             ident = pv.expand(pa[1]) if pa and pa[1] is not None else None
+            if isinstance(ident, ast.Attribute) and isinstance(ident.value, ast.Call) and chain(ident.value.func) == "self.request_cache.add" \
+                    and len(ident.value.args) == 1 and not ident.value.keywords:
+                ident = ast.Attribute(value=ident.value.args[0], attr=ident.attr, ctx=ast.Load())      # add() hands back the cache it registered
             ok = isinstance(ident, ast.Attribute) and ident.attr == "packet_identifier" and norm(ident.value) == ct \
                 and pv.xn(pa[0]) == "circuit.circuit_id" and is_param(fi, "circuit") and not local_defs(fi, "circuit") \
                 and any(chain(a.func) == "self.request_cache.add" and v.xn(arg(a, 0)) == ct for v in views for a in calls(v.fi))
             # old attempt's cache is popped first (so an answer to the old attempt finds the new identifier): on every path
             # to the construction of the new cache the old one was popped or there was none (CFG, not line order)
-            site, sv_ = ctor, cv_
-            while sv_.up is not None:
-                site, sv_ = sv_.site, sv_.up
-            ok = ok and _old_retry_cache_dropped_before(ctx, fi, site)
+            ok = ok and _old_retry_cache_dropped(cv_, cv_.cfg.nodes_for(ctor))
         ctx.check(ok, "identifier-match", fi, fi.node, f"{meth}: pops the old retry cache, registers a new one and sends its identifier",
                   f"{meth} does not bind the request to a fresh retry cache identifier")
+
+
+def _suspension_before(v: _View, nodes: list, skip: ast.AST | None = None) -> str | None:
+    """
+    A point where the event loop can run other handlers lies on some path from the entry of the outermost function to `nodes`
+    of view v: an await / async with / async for in v before the nodes, a coroutine callee that is not awaited on the spot
+    (it is scheduled, so it starts later), or the same in a caller before the call.  Returns a description, None if there is none.
+    skip: an Await expression that does not count (the await of the callee under analysis: it suspends only where the callee does).
+    """
+    for n in v.cfg.nodes:
+        if not _node_awaits(n):
+            continue
+        if skip is not None and isinstance(n.ast, ast.AST) and not isinstance(n.ast, (ast.AsyncWith, ast.AsyncFor)) \
+                and all(x is skip for x in walk_no_nested(n.ast) if isinstance(x, ast.Await)):
+            continue
+        if any(x in v.cfg.reach([n]) for x in nodes):
+            return f"`{head(n.ast)[:70]}` in {v.fi.qualname}"
+    if v.up is None:
+        return None
+    awaited = parent(v.site) if isinstance(parent(v.site), ast.Await) else None
+    if v.fi.is_async and awaited is None:
+        return f"{v.fi.qualname} is a coroutine that `{norm(enclosing_stmt(v.site))[:70]}` in {v.up.fi.qualname} does not await on the spot (it runs later)"
+    return _suspension_before(v.up, v.up.cfg.nodes_for(v.site), awaited)
 
 
 def rule_verify_before_accept(ctx: Ctx) -> None:
@@ -1023,7 +2635,7 @@ def rule_verify_before_accept(ctx: Ctx) -> None:
     for r, c0, w in acc:
         payload, circ, hop = _circuit_terms(r)
         views = w.closure()
-        vcalls = [(v, c) for v in views for c in calls(v.fi) if call_name(c) == VERIFY]
+        vcalls = [(v, c) for v in views for c in _verify_calls(v)]
         ctx.anchor(vcalls, "verify call")
         vnorms = {v.xn(c) for v, c in vcalls}
         sites = _accept_sites(views)
@@ -1033,6 +2645,15 @@ def rule_verify_before_accept(ctx: Ctx) -> None:
             ctx.check(_verified_at(v, v.cfg.nodes_for(s)), "verify-before-accept", v.fi, s,
                       f"`{norm(s)[:60]}` reachable only after verify_and_generate_shared_secret returned normally",
                       "session keys / the new hop are accepted on a path on which the authenticated DH verification did not succeed")
+        # from the identifier check to the point where the pending hop is cleared and appended nothing else may run: a
+        # suspension point in between lets a second copy of the same answer pass the same checks against the same pending hop
+        for v, s, kind in sites:
+            susp = _suspension_before(v, v.cfg.nodes_for(s))
+            ctx.check(susp is None, "verify-before-accept", v.fi, s,
+                      f"`{norm(s)[:60]}` is reached without a suspension point since the answer handler was entered",
+                      f"the acceptance of an answer is not atomic: {susp} suspends between the identifier check / the read of the pending hop and "
+                      f"`{norm(s)[:50]}`; two copies of the same valid created/extended answer (UDP duplicate, replay) that are both dispatched "
+                      "before the first has finished both verify against the same pending hop and both append it - the hop list names the peer twice")
         # keys derive from the verified secret and are installed on the pending hop of this circuit
         for v, st, kind in sites:
             if kind != "keys":
@@ -1043,7 +2664,7 @@ def rule_verify_before_accept(ctx: Ctx) -> None:
             ctx.check(ok, "verify-before-accept", v.fi, st, "hop.keys = generate_session_keys(<verified shared secret>)",
                       "the accepted session keys are not derived from the verified shared secret")
             tgt = _store_target(st, "keys")
-            ctx.check(tgt is not None and v.xn(tgt.value) == hop, "verify-before-accept", v.fi, st,
+            ctx.check(tgt is not None and v.xn(tgt.value, obj=True) == hop, "verify-before-accept", v.fi, st,
                       "the session keys are installed on the circuit's pending hop",
                       "the accepted session keys are installed on something other than the pending hop of the answered circuit")
         # the pending hop is cleared before the hop is appended: nothing that can raise lies between acceptance and the reset,
@@ -1051,8 +2672,8 @@ def rule_verify_before_accept(ctx: Ctx) -> None:
 
         def resets(x: _View) -> list[ast.AST]:
             return [s_ for s_, t in stores(x.fi, lambda c: c.endswith(".unverified_hop"))
-                    if isinstance(s_, (ast.Assign, ast.AnnAssign)) and s_.value is not None and const_value(s_.value) is None
-                    and x.xn(t.value) == circ]
+                    if isinstance(s_, (ast.Assign, ast.AnnAssign)) and _stored_value(s_, t) is not None and const_value(strip_cast(_stored_value(s_, t))) is None
+                    and x.xn(t.value, obj=True) == circ]
 
         for v, c, kind in sites:
             if kind != "add_hop":
@@ -1060,13 +2681,13 @@ def rule_verify_before_accept(ctx: Ctx) -> None:
             ctx.check(_always(v, v.cfg.nodes_for(c), resets), "verify-before-accept", v.fi, c, "circuit.unverified_hop is cleared before add_hop on every path",
                       "the accepted hop stays registered as the pending hop on some path after add_hop: a duplicated answer is verified again and the same peer is appended twice")
             # the hop that is added is the unverified hop of this circuit
-            ok = isinstance(c.func, ast.Attribute) and v.xn(c.func.value) == circ and len(c.args) == 1 and not c.keywords and v.xn(c.args[0]) == hop
+            ok = isinstance(c.func, ast.Attribute) and v.xn(c.func.value, obj=True) == circ and len(c.args) == 1 and not c.keywords and v.xn(c.args[0]) == hop
             ctx.check(ok, "verify-before-accept", v.fi, c,
                       "circuit.add_hop(hop) with hop = circuit.unverified_hop of self.circuits[circuit_id]",
                       "the hop appended is not the circuit's own unverified hop")
         # ---- selected-peer-key
         for v, c in vcalls:
-            pa = _pargs(c, ["dh_secret", "dh_received", "auth", "b"])
+            pa = _pargs(c, ["dh_secret", "dh_received", "auth", "b"], v.fi)
             a = [v.xn(x) for x in pa] if pa else []
             ok = a == [f"{hop}.dh_secret", f"{payload}.key", f"{payload}.auth", f"{hop}.peer.public_key.get_crypt_pk()"]
             ctx.check(ok, "selected-peer-key", v.fi, c, "verify(hop.dh_secret, payload.key, payload.auth, hop.peer.public_key.get_crypt_pk())",
@@ -1091,14 +2712,15 @@ def rule_verify_before_accept(ctx: Ctx) -> None:
         secret = vv.expand(r.value) if r.value is not None else None
         ok = False
         for op, pos, l, rt in xf:
-            if op == "truthy" and pos and isinstance(l, ast.Call) and chain(l.func) == "crypto_auth_verify" and len(l.args) == 3 and not l.keywords:
-                mac = _prefix32(l.args[1])
+            passed = op == "truthy" and pos or op in ("is", "eq") and not pos and rt is not None and const_value(rt) is False   # a bool primitive: `is not False` is True
+            if passed and isinstance(l, ast.Call) and chain(l.func) == "crypto_auth_verify" and len(l.args) == 3 and not l.keywords:
+                mac = _prefix32(l.args[1], vf.module, repo)
                 if secret is not None and mac is not None and norm(mac) == norm(secret) and _snorm(l.args[0]) == p[2] and _snorm(l.args[2]) == p[1]:
                     ok = True
         ctx.check(ok, "verify-before-accept", vf, r, "shared secret returned only under truthy crypto_auth_verify(auth, secret[:32], dh_received)",
                   "verify_and_generate_shared_secret can return a secret without a successful authenticator check",
                   [f"{op}{'' if pos else '-not'}: {norm(l)}" for op, pos, l, rt in xf])
-        parts = [norm(x) for x in _concat_parts(secret)] if secret is not None else []
+        parts = [norm(x) for x in _concat_parts(secret, vf.module)] if secret is not None else []
         ok2 = parts == [f"{p[0]}.diffie_hellman({p[1]})", f"{p[0]}.diffie_hellman({p[3]})"]
         ctx.check(ok2, "selected-peer-key", vf, r, "secret = DH(secret, received ephemeral) + DH(secret, static key b)",
                   "the shared secret does not combine the ephemeral and the selected peer's static key in (ephemeral, static) order")
@@ -1116,7 +2738,7 @@ def rule_verify_before_accept(ctx: Ctx) -> None:
     ctx.anchor(rets, "return in generate_diffie_shared_secret")
     for r, t in rets:
         recv, keyp = gf.params()[1], gf.params()[2]
-        parts = _concat_parts(t.elts[0]) if len(t.elts) == 3 else []
+        parts = _concat_parts(t.elts[0], gf.module) if len(t.elts) == 3 else []
         ok = len(parts) == 2 and not local_defs(gf, recv)
         if ok:
             eph, sta = parts
@@ -1127,10 +2749,26 @@ def rule_verify_before_accept(ctx: Ctx) -> None:
         ok = ok and tk is not None  # one ephemeral key object: the one in the DH is the one whose public half is authenticated
         au = t.elts[2] if ok else None
         ok_au = isinstance(au, ast.Call) and chain(au.func) == "crypto_auth" and len(au.args) == 2 and not au.keywords \
-            and _prefix32(au.args[0]) is not None and norm(_prefix32(au.args[0])) == norm(t.elts[0]) \
+            and _prefix32(au.args[0], gf.module, repo) is not None and norm(_prefix32(au.args[0], gf.module, repo)) == norm(t.elts[0]) \
             and norm(au.args[1]) == "tmp_key.get_crypt_pk()" and norm(t.elts[1]) == "tmp_key.get_crypt_pk()"
         ctx.check(ok and ok_au, "selected-peer-key", gf, r, "responder: secret = DH(ephemeral, X) + DH(static, X); auth over secret[:32] and its ephemeral key",
                   "responder side of the handshake does not mirror the originator's (ephemeral, static) construction")
+
+
+def _extend_key_source(v: _View, val: ast.AST) -> ast.AST | None:
+    """B if `val` is ``Hop(Peer(<crypto>.key_from_public_bin(B)), ..)`` - as written (through single-assignment locals), else after expansion"""
+    def path(step):
+        h = step(val)
+        pe = step(arg(h, 0, "peer")) if isinstance(h, ast.Call) and chain(h.func) == "Hop" and arg(h, 0, "peer") is not None else None
+        k = step(arg(pe, 0, "key")) if isinstance(pe, ast.Call) and chain(pe.func) == "Peer" and arg(pe, 0, "key") is not None else None
+        return arg(k, 0) if isinstance(k, ast.Call) and call_name(k) == "key_from_public_bin" and len(k.args) + len(k.keywords) == 1 else None
+
+    b = path(lambda e: resolve(v.fi, e))
+    if b is not None:
+        return b
+    keep = frozenset(n for n in {x.id for x in ast.walk(v.fi.node) if isinstance(x, ast.Name)} if len(local_defs(v.fi, n)) > 1)
+    h = v.expand(val, keep=keep)
+    return path(lambda e: strip_cast(e) if e is not h else h)
 
 
 def rule_unverified_hop_writers(ctx: Ctx) -> None:
@@ -1174,18 +2812,16 @@ def rule_unverified_hop_writers(ctx: Ctx) -> None:
                     ok = isinstance(h, ast.Call) and chain(h.func) == "Hop" and _snorm(arg(h, 0, "peer")) == f"{cand}[0]" \
                         and not local_defs(root, cand)
                 elif root is se:
-                    h = v.expand(val, keep=frozenset({"extend_hop_public_bin"}))
-                    ok = isinstance(h, ast.Call) and chain(h.func) == "Hop"
-                    if ok:
-                        pe = strip_cast(arg(h, 0, "peer"))
-                        k = strip_cast(arg(pe, 0, "key")) if isinstance(pe, ast.Call) and chain(pe.func) == "Peer" else None
-                        ok = isinstance(k, ast.Call) and call_name(k) == "key_from_public_bin" and chain(arg(k, 0)) == "extend_hop_public_bin"
+                    # Hop(Peer(key_from_public_bin(<B>))): B is the key of the node chosen to extend to (its pairing with the
+                    # address that is named is checked below)
+                    b = _extend_key_source(v, val)
+                    ok = b is not None and const_value(strip_cast(b)) is NOCONST
                 ctx.check(ok, "selected-peer-key", fi or m.relpath, st, f"unverified_hop written in {q} from the chosen candidate",
                           "the hop awaiting verification is set from something other than the candidate the originator selected")
     ctx.floor("selected-peer-key.writers", n, 4)
     # the extend request names the same key that will be verified
     for c in calls(se, "ExtendPayload"):
-        pa = _pargs(c, ["circuit_id", "identifier", "node_public_key", "key", "node_addr"]) or [None] * 5
+        pa = _pargs(c, ["circuit_id", "identifier", "node_public_key", "key", "node_addr"], se) or [None] * 5
         a2, a3 = (strip_cast(x) if x is not None else None for x in pa[2:4])
         ok = isinstance(a2, ast.Attribute) and a2.attr == "public_key_bin" and _is_pending_hop(ctx, se, a2.value, c) \
             and isinstance(a3, ast.Attribute) and a3.attr == "dh_first_part" and _is_pending_hop(ctx, se, a3.value, c)
@@ -1193,7 +2829,7 @@ def rule_unverified_hop_writers(ctx: Ctx) -> None:
                   "the extend request names a different node than the one whose key will be verified")
     sv = _View(ctx, sic)
     for c in calls(sic, "CreatePayload"):
-        pa = _pargs(c, ["circuit_id", "identifier", "node_public_key", "key"]) or [None] * 4
+        pa = _pargs(c, ["circuit_id", "identifier", "node_public_key", "key"], sic) or [None] * 4
         a3 = strip_cast(pa[3]) if pa[3] is not None else None
         ok = isinstance(a3, ast.Attribute) and a3.attr == "dh_first_part" and _is_pending_hop(ctx, sic, a3.value, c)
         ctx.check(ok, "selected-peer-key", sic, c, "create request carries unverified_hop's DH part", "create carries another DH part")
@@ -1346,6 +2982,22 @@ def _jointly_reach(v: _View, sb, sa, kb: list, ka: list, site_nodes: list) -> bo
 
 def _target_pairs(v: _View, eb: ast.AST, ea: ast.AST, site, depth: int = 3) -> list[tuple[_View, ast.AST, ast.AST]]:
     """(view, key expression, address expression) for every pair of definitions that can be current together at the site"""
+    if const_value(strip_cast(ea)) == ("0.0.0.0", 0):
+        return [(v, eb, ea)]        # no address is named: nothing to pair the key with, however it is bound
+    cb, ca = _component(v, eb), _component(v, ea)
+    if cb is not None and ca is not None and cb[0] is ca[0] and cb[1] is not None and ca[1] is not None and depth > 0 and v.helper_of(cb[0]) is not None:
+        # both are components of the result of one call of a new helper: each of its returns gives a pair
+        kv = v.helper_of(cb[0])
+        out = []
+        for r in [x for x in walk_no_nested(kv.fi.node) if isinstance(x, ast.Return)]:
+            te = _ret_elts(kv, r.value)
+            if te is None:
+                raise AnalysisError(f"undecided: {kv.fi.qualname} does not return a tuple / record display at `{norm(r)[:60]}`")
+            idx = [k if isinstance(k, int) else (te[1].index(k) if te[1] and k in te[1] else None) for k in (cb[1], ca[1])]
+            if any(i is None or i >= len(te[0]) for i in idx):
+                raise AnalysisError(f"undecided: component of the result of {kv.fi.qualname} at `{norm(r)[:60]}`")
+            out += _target_pairs(kv, te[0][idx[0]], te[0][idx[1]], r, depth - 1)
+        return out
     rb, ra = _reaching_defs(v, eb), _reaching_defs(v, ea)
     kb, ka = [s for s, _v, _i in rb if s is not None], [s for s, _v, _i in ra if s is not None]
     rb, ra = [d for d in rb if d[0] is not site], [d for d in ra if d[0] is not site]     # the site's own definitions come after it
@@ -1373,10 +3025,10 @@ def _target_pairs(v: _View, eb: ast.AST, ea: ast.AST, site, depth: int = 3) -> l
                 raise AnalysisError(f"undecided: key and address of the node to extend to are bound in {v.fi.qualname} in a way that is not followed "
                                     f"(`{norm(sb or sa)[:80]}`)")
             for r in [x for x in walk_no_nested(kv.fi.node) if isinstance(x, ast.Return)]:
-                t = strip_cast(r.value) if r.value is not None else None
-                if not isinstance(t, ast.Tuple) or max(ib, ia) >= len(t.elts) or any(isinstance(x, ast.Starred) for x in t.elts):
+                te = _ret_elts(kv, r.value)
+                if te is None or max(ib, ia) >= len(te[0]):
                     raise AnalysisError(f"undecided: {kv.fi.qualname} does not return a tuple display at `{norm(r)[:60]}`")
-                out += _target_pairs(kv, t.elts[ib], t.elts[ia], r, depth - 1)
+                out += _target_pairs(kv, te[0][ib], te[0][ia], r, depth - 1)
     return out
 
 
@@ -1406,17 +3058,15 @@ def _extend_names_one_node(ctx: Ctx, se: FuncInfo) -> None:
     """
     v = _View(ctx, se)
     for c in calls(se, "ExtendPayload"):
-        pa = _pargs(c, ["circuit_id", "identifier", "node_public_key", "key", "node_addr"])
+        pa = _pargs(c, ["circuit_id", "identifier", "node_public_key", "key", "node_addr"], se)
         if pa is None or pa[4] is None:
             continue
         # the key that is named: the one the pending hop was built from (checked by the writer rule): key_from_public_bin(<B>)
         keys = []
         for st, t in stores(se, "circuit.unverified_hop"):
-            h = v.expand(st.value, keep=frozenset({"extend_hop_public_bin"})) if isinstance(st, (ast.Assign, ast.AnnAssign)) and st.value is not None else None
-            pe = strip_cast(arg(h, 0, "peer")) if isinstance(h, ast.Call) and chain(h.func) == "Hop" else None
-            k = strip_cast(arg(pe, 0, "key")) if isinstance(pe, ast.Call) and chain(pe.func) == "Peer" else None
-            if isinstance(k, ast.Call) and call_name(k) == "key_from_public_bin" and arg(k, 0) is not None:
-                keys.append(arg(k, 0))
+            b = _extend_key_source(v, st.value) if isinstance(st, (ast.Assign, ast.AnnAssign)) and st.value is not None else None
+            if b is not None:
+                keys.append(b)
         if len(keys) != 1:
             continue        # reported by the writer rule
         bad = []
@@ -1540,23 +3190,65 @@ def _ctor_field_param(repo, clsname: str, relpath: str, attr: str) -> int | None
     return None
 
 
+def _row_items(v: _View, it: ast.AST) -> list[list[ast.AST]] | None:
+    """
+    The rows of an evident finite iterable of tuples: a display of tuples (directly or in a single-assignment local),
+    ``zip(<a, b>, <c, d>)`` and ``{k: v, ..}.items()``.  None: not evident.
+    """
+    it = resolve(v.fi, it)
+    mod = v.fi.module
+    if isinstance(it, ast.Call) and not it.keywords and not any(isinstance(a, ast.Starred) for a in it.args):
+        if _is_builtin(mod, it.func, "zip") and it.args:
+            cols = [_seq_items(resolve(v.fi, a), mod) for a in it.args]
+            if any(c is None for c in cols) or len({len(c) for c in cols}) != 1:
+                return None
+            return [list(r) for r in zip(*cols)]
+        if isinstance(it.func, ast.Attribute) and it.func.attr == "items" and not it.args:
+            d = resolve(v.fi, it.func.value)
+            if isinstance(d, ast.Dict) and all(k is not None for k in d.keys):
+                return [[k, val] for k, val in zip(d.keys, d.values)]
+            return None
+        if len(it.args) == 1 and any(_is_builtin(mod, it.func, n) for n in ("list", "tuple", "iter")):
+            return _row_items(v, it.args[0])
+    its = _seq_items(it, mod)
+    if its is None:
+        return None
+    rows = []
+    for x in its:
+        x = resolve(v.fi, x)
+        if not isinstance(x, (ast.Tuple, ast.List)) or any(isinstance(y, ast.Starred) for y in x.elts):
+            return None
+        rows.append(list(x.elts))
+    return rows
+
+
+def _mapping_rows(v: _View, e: ast.AST) -> list[list[ast.AST]] | None:
+    """(key, value) rows of an evident mapping argument: a dict display, ``dict(<pairs>)``, or a sequence of pairs"""
+    d = resolve(v.fi, e)
+    if isinstance(d, ast.Dict):
+        return [[k, val] for k, val in zip(d.keys, d.values)] if all(k is not None for k in d.keys) else None
+    if isinstance(d, ast.Call) and _is_builtin(v.fi.module, d.func, "dict") and len(d.args) == 1 and not d.keywords:
+        return _mapping_rows(v, d.args[0])
+    rows = _row_items(v, d)
+    return rows if rows is not None and all(len(r) == 2 for r in rows) else None
+
+
 def _route_installs(v: _View, table: str = "self.relay_from_to") -> list[tuple[ast.AST, ast.AST | None, ast.AST | None]]:
     """(statement, key, value) - expanded - for every way view v puts an entry into the dict `table` (self.relay_from_to)"""
     out = []
 
     def alternatives(k: ast.AST, val: ast.AST | None):
-        # a key / value taken from a for-loop over a literal sequence of tuples stands for each of its elements
+        # a key / value taken from a for-loop over an evident sequence of tuples stands for each of its elements
         names = {x.id for e in (k, val) if e is not None for x in ast.walk(e) if isinstance(x, ast.Name)}
         for nm in names:
             d = local_defs(v.fi, nm)
             if len(d) == 1 and isinstance(d[0][0], (ast.For, ast.AsyncFor)):
                 loop = d[0][0]
-                it = strip_cast(loop.iter)
                 tg = loop.target
-                if isinstance(it, (ast.Tuple, ast.List)) and it.elts and isinstance(tg, (ast.Tuple, ast.List)) \
-                        and all(isinstance(x, ast.Name) for x in tg.elts) \
-                        and all(isinstance(e, (ast.Tuple, ast.List)) and len(e.elts) == len(tg.elts) for e in it.elts):
-                    return [{t.id: v.expand(x) for t, x in zip(tg.elts, e.elts)} for e in it.elts]
+                rows = _row_items(v, loop.iter)
+                if rows and isinstance(tg, (ast.Tuple, ast.List)) and all(isinstance(x, ast.Name) for x in tg.elts) \
+                        and all(len(row) == len(tg.elts) for row in rows):
+                    return [{t.id: v.expand(x) for t, x in zip(tg.elts, row)} for row in rows]
         return [{}]
 
     def add(st, k, val):
@@ -1587,12 +3279,41 @@ def _route_installs(v: _View, table: str = "self.relay_from_to") -> list[tuple[a
         elif c.func.attr == "setdefault" and len(c.args) == 2 and not c.keywords:
             add(st, c.args[0], c.args[1])
         elif c.func.attr == "update":
-            d = resolve(v.fi, c.args[0]) if len(c.args) == 1 and not c.keywords else None
-            if not isinstance(d, ast.Dict) or any(k is None for k in d.keys):
-                raise AnalysisError(f"undecided: {table}.update(..) in {v.fi.qualname} with something other than a dict display")
-            for k, val in zip(d.keys, d.values):
+            rows = _mapping_rows(v, c.args[0]) if len(c.args) == 1 and not c.keywords else None
+            if rows is None:
+                raise AnalysisError(f"undecided: {table}.update(..) in {v.fi.qualname} with something other than an evident mapping / sequence of pairs")
+            for k, val in rows:
+                add(st, k, val)
+    for st in walk_no_nested(v.fi.node):
+        if isinstance(st, ast.AugAssign) and isinstance(st.op, ast.BitOr) and v.xn(st.target) == table:
+            rows = _mapping_rows(v, st.value)
+            if rows is None:
+                raise AnalysisError(f"undecided: `{table} |= ..` in {v.fi.qualname} with something other than an evident mapping")
+            for k, val in rows:
                 add(st, k, val)
     return out
+
+
+def _keyerror_handled(v: _View, call: ast.Call) -> bool:
+    """an exception raised by the statement of `call` goes to an ``except`` clause that catches KeyError (it never leaves the function)"""
+    nodes = v.cfg.nodes_for(call)
+    if not nodes:
+        return False
+    for n in nodes:
+        exc = [w for w, lab in n.succ if lab == "exc"]
+        if not exc:
+            return False
+        for d in exc:
+            if d.kind != "dispatch" or not isinstance(d.ast, ast.Try):
+                return False
+            caught = False
+            for h in d.ast.handlers:
+                types = [] if h.type is None else (h.type.elts if isinstance(h.type, ast.Tuple) else [h.type])
+                if h.type is None or any(chain(t) in ("KeyError", "LookupError", "Exception", "BaseException") for t in types):
+                    caught = True
+            if not caught:
+                return False
+    return True
 
 
 def rule_relay_pairing(ctx: Ctx) -> None:
@@ -1602,7 +3323,7 @@ def rule_relay_pairing(ctx: Ctx) -> None:
     pe = oe.params()[2]
     ctors = ctx.anchor([(v, c) for v in ev.closure() for c in calls(v.fi, "CreateRequestCache")], "CreateRequestCache in on_extend")
     v0, c = ctors[0]
-    pa = _pargs(c, ["community", "identifier", "to_circuit_id", "from_circuit_id", "peer", "to_peer"]) or [None] * 6
+    pa = _pargs(c, ["community", "identifier", "to_circuit_id", "from_circuit_id", "peer", "to_peer"], v0.fi) or [None] * 6
     new_ids = [x for v in ev.closure() for x in calls(v.fi, "self._generate_circuit_id")]
     ok = len(ctors) == 1 and len(new_ids) == 1 and [v0.xn(x) for x in pa[:4]] == ["self", f"{pe}.identifier", "self._generate_circuit_id()", f"{pe}.circuit_id"] \
         and not local_defs(oe, pe)
@@ -1610,7 +3331,7 @@ def rule_relay_pairing(ctx: Ctx) -> None:
     cps = [(v, x) for v in ev.closure() for x in calls(v.fi, "CreatePayload")]
     if ok and len(cps) == 1:
         v1, cp = cps[0]
-        qa = _pargs(cp, ["circuit_id", "identifier", "node_public_key", "key"]) or [None] * 4
+        qa = _pargs(cp, ["circuit_id", "identifier", "node_public_key", "key"], v1.fi) or [None] * 4
         to_field = _ctor_field_param(repo, "CreateRequestCache", CA, "to_circuit_id")
         # the forwarded create runs under the circuit id the relay just generated (the local, or the field the cache copied it to)
         ok = (v1.xn(qa[0]) == "self._generate_circuit_id()" or v1.xn(qa[0]) == f"{ct}.to_circuit_id" and to_field == 2) \
@@ -1629,19 +3350,30 @@ def rule_relay_pairing(ctx: Ctx) -> None:
     for v, p in pops:
         xf = _xfacts(v, p)
         key = v.xn(arg(p, 1))
-        ok = key == f"{pl}.identifier" and not local_defs(oc, pl) and len(p.args) == 2 and not p.keywords and \
-            _fkey("truthy", True, f"self.request_cache.has(CreateRequestCache, {key})") in {_tkey(t) for t in xf}
+        # the pending extend exists: has() / a live get() for the same key dominates, or the KeyError of pop() is handled
+        exists = _keyerror_handled(v, p)
+        for op, pos, l, rt in xf:
+            live = op == "truthy" and pos or op == "is" and not pos and rt is not None and const_value(rt) is None
+            if live and norm(l) in (f"self.request_cache.has(CreateRequestCache, {key})", f"self.request_cache.get(CreateRequestCache, {key})"):
+                exists = True
+        ok = key == f"{pl}.identifier" and not local_defs(oc, pl) and len(p.args) == 2 and not p.keywords and exists
         ctx.check(ok, "relay-pairing", v.fi, p, "created consumed by payload.identifier only when such a cache exists (has before pop)",
                   "a created answer is paired with a pending extend without checking the cache exists / by another key",
                   [f"{op}{'' if pos else '-not'}: {norm(l)}" for op, pos, l, rt in xf])
     # ---- the routes installed for the new hop are those of the pending extend *as the relay stored it*
-    req = pops[0][0].xn(pops[0][1])            # the popped CreateRequestCache, in on_created's terms
     one_pop = len(pops) == 1
+    # the popped CreateRequestCache, in on_created's terms: the result of the pop, or of a get() with the same arguments
+    # (the same object: nothing runs between the two in this non-suspending handler)
+    reqs = {pops[0][0].xn(pops[0][1]), f"self.request_cache.get(CreateRequestCache, {pops[0][0].xn(arg(pops[0][1], 1))})"}
+    req = pops[0][0].xn(pops[0][1])
+
+    def popped(x: _View) -> list[ast.AST]:
+        return [p for w, p in pops if w is x]
 
     def req_attr(e: ast.AST | None) -> str | None:
         """attribute name if the (expanded) e is <popped request>.<attr>"""
         e = strip_cast(e) if e is not None else None
-        return e.attr if one_pop and isinstance(e, ast.Attribute) and norm(e.value) == req else None
+        return e.attr if one_pop and isinstance(e, ast.Attribute) and norm(e.value) in reqs else None
 
     def from_exit_socket_keys(e: ast.AST | None) -> bool:
         """e is self.exit_sockets[<request>.from_circuit_id].hop.keys (the keys negotiated with the circuit owner's side)"""
@@ -1666,7 +3398,7 @@ def rule_relay_pairing(ctx: Ctx) -> None:
     def socket_lookups(x: _View) -> list[ast.AST]:
         """statements that evaluate self.exit_sockets[<request>.from_circuit_id]: completing one normally means the key is present"""
         return [s for s in walk_no_nested(x.fi.node) if isinstance(s, ast.Subscript) and isinstance(s.ctx, ast.Load)
-                and x.xn(s) == f"self.exit_sockets[{req}.from_circuit_id]"]
+                and x.xn(s.value) == "self.exit_sockets" and req_attr(x.expand(s.slice)) == "from_circuit_id"]
 
     expect = {"to_circuit_id": ("from_circuit_id", "peer", "BACKWARD"), "from_circuit_id": ("to_circuit_id", "to_peer", "FORWARD")}
     seen = []
@@ -1683,6 +3415,7 @@ def rule_relay_pairing(ctx: Ctx) -> None:
                     and req_attr(arg(hp, 0, "peer")) == peer and from_exit_socket_keys(arg(hp, 1, "keys")) \
                     and _snorm(arg(val, 2, "direction")) == direction
             ok = ok and (any(still_exit_socket(t) for t in xf) or _always(v, v.cfg.nodes_for(st), socket_lookups))
+            ok = ok and _always(v, v.cfg.nodes_for(st), popped)        # the pending extend was consumed: it cannot be answered twice
             ctx.check(ok, "relay-pairing", v.fi, st,
                       "relay route registered under the pending extend's own to/from circuit id (from the popped CreateRequestCache), "
                       "keyed from the origin's exit socket, only while the origin circuit still is an exit socket here",
@@ -1696,7 +3429,7 @@ def rule_relay_pairing(ctx: Ctx) -> None:
               "on_created does not register exactly one backward and one forward route for the pending extend")
     for v in views:
         for e in calls(v.fi, "ExtendedPayload"):
-            pa = _pargs(e, ["circuit_id", "identifier", "key", "auth", "candidates_enc"])
+            pa = _pargs(e, ["circuit_id", "identifier", "key", "auth", "candidates_enc"], v.fi)
             ok = pa is not None and all(x is not None for x in pa)
             if ok:
                 a0 = v.expand(pa[0])
@@ -1713,6 +3446,7 @@ def rule_relay_pairing(ctx: Ctx) -> None:
 def run(ctx: Ctx) -> None:
     rule_identifier(ctx)
     rule_verify_before_accept(ctx)
+    rule_release_after_accept(ctx)
     rule_unverified_hop_writers(ctx)
     rule_append_only(ctx)
     rule_relay_pairing(ctx)
@@ -1751,6 +3485,26 @@ WITNESSES = [
             self.logger.warning("error while verifying shared secret")
             session_keys = None
 """},
+    {"name": "verification failure swallowed by contextlib.suppress", "rule": "verify-before-accept", "edits": [
+        {"file": TC, "old": "from collections import Counter, defaultdict\n", "new": "from collections import Counter, defaultdict\nfrom contextlib import suppress\n"},
+        {"file": TC,
+         "old": """        try:
+            shared_secret = self.crypto.verify_and_generate_shared_secret(hop.dh_secret, payload.key, payload.auth,
+                                                                          hop.peer.public_key.get_crypt_pk())
+            session_keys = self.crypto.generate_session_keys(shared_secret)
+            hop.keys = session_keys
+
+        except ValueError:
+            self.remove_circuit(circuit.circuit_id, "error while verifying shared secret")
+            return
+""",
+         "new": """        session_keys = None
+        with suppress(ValueError):
+            shared_secret = self.crypto.verify_and_generate_shared_secret(hop.dh_secret, payload.key, payload.auth,
+                                                                          hop.peer.public_key.get_crypt_pk())
+            session_keys = self.crypto.generate_session_keys(shared_secret)
+            hop.keys = session_keys
+"""}]},
     {"name": "auth check result ignored", "file": CR, "rule": "verify-before-accept",
      "old": "        if not crypto_auth_verify(auth, shared_secret[:32], dh_received):\n            raise CryptoException\n",
      "new": "        crypto_auth_verify(auth, shared_secret[:32], dh_received)\n"},
@@ -1811,6 +3565,53 @@ WITNESSES = [
      "new": "        self.exit_sockets.pop(payload.circuit_id, None)\n        result = await self.should_join_circuit(payload, source_address)\n"},
     {"name": "extend names the key of one peer and the address of another", "file": TC, "rule": "selected-peer-key",
      "old": "                    extend_hop_addr = peer.address\n", "new": "                    extend_hop_addr = choices[0].address\n"},
+    {"name": "an unexpected created answer tears the circuit down", "file": TC, "rule": "identifier-match",
+     "old": "        else:\n            self.logger.warning(\"Received unexpected created for circuit %d\", circuit_id)\n",
+     "new": "        else:\n            self.logger.warning(\"Received unexpected created for circuit %d\", circuit_id)\n            self.remove_circuit(circuit_id, \"unexpected created\")\n"},
+    {"name": "an unexpected extended answer drops the pending retry cache", "file": TC, "rule": "identifier-match",
+     "old": "            self.logger.warning(\"Received unexpected extended for circuit %s\", circuit_id)\n            return\n",
+     "new": "            self.logger.warning(\"Received unexpected extended for circuit %s\", circuit_id)\n            if cache:\n                self.request_cache.pop(RetryRequestCache, circuit_id)\n            return\n"},
+    {"name": "retry cache of the accepted hop only looked up before the next extend", "file": TC, "rule": "identifier-match",
+     "old": "            cache = self.request_cache.pop(RetryRequestCache, circuit.circuit_id)\n            try:\n",
+     "new": "            cache = self.request_cache.get(RetryRequestCache, circuit.circuit_id)\n            try:\n"},
+    {"name": "suspension point between verification and clearing the pending hop", "rule": "verify-before-accept", "edits": [
+        {"file": TC,
+         "old": "    def _ours_on_created_extended(self, circuit_id: int, payload: CreatedPayload | ExtendedPayload) -> None:\n",
+         "new": "    async def _ours_on_created_extended(self, circuit_id: int, payload: CreatedPayload | ExtendedPayload) -> None:\n"},
+        {"file": TC,
+         "old": "        circuit.unverified_hop = None\n        circuit.add_hop(hop)\n",
+         "new": "        await sleep(0)\n        circuit.unverified_hop = None\n        circuit.add_hop(hop)\n"},
+        {"file": TC,
+         "old": "        if cache and cache.packet_identifier == payload.identifier:\n            self._ours_on_created_extended(circuit_id, payload)",
+         "new": "        if cache and cache.packet_identifier == payload.identifier:\n            ensure_future(self._ours_on_created_extended(circuit_id, payload))"},
+        {"file": TC,
+         "old": "            return\n\n        self._ours_on_created_extended(circuit_id, payload)\n",
+         "new": "            return\n\n        ensure_future(self._ours_on_created_extended(circuit_id, payload))\n"}]},
+    {"name": "acceptance scheduled as a task instead of running inside the handler", "rule": "verify-before-accept", "edits": [
+        {"file": TC,
+         "old": "    def _ours_on_created_extended(self, circuit_id: int, payload: CreatedPayload | ExtendedPayload) -> None:\n",
+         "new": "    async def _ours_on_created_extended(self, circuit_id: int, payload: CreatedPayload | ExtendedPayload) -> None:\n"},
+        {"file": TC,
+         "old": "        if cache and cache.packet_identifier == payload.identifier:\n            self._ours_on_created_extended(circuit_id, payload)",
+         "new": "        if cache and cache.packet_identifier == payload.identifier:\n            ensure_future(self._ours_on_created_extended(circuit_id, payload))"},
+        {"file": TC,
+         "old": "            return\n\n        self._ours_on_created_extended(circuit_id, payload)\n",
+         "new": "            return\n\n        ensure_future(self._ours_on_created_extended(circuit_id, payload))\n"}]},
+    {"name": "retry cache of the accepted hop released only after the candidate list of the answer was decrypted and unpacked (pre-fix shape)",
+     "rule": "release-after-accept", "edits": [
+        {"file": TC, "old": '            # The retry of the hop that just answered must not fire anymore, also if the candidates turn out to be garbage.\n            cache = self.request_cache.pop(RetryRequestCache, circuit.circuit_id)\n            try:\n                candidates_enc = payload.candidates_enc\n                candidates_bin = session_keys.decrypt_str(candidates_enc, FORWARD)\n                candidates, _ = self.serializer.unpack("varlenH-list", candidates_bin)\n            except Exception:\n                self.remove_circuit(circuit.circuit_id, "error while decrypting candidates")\n                return\n',
+         "new": '            candidates_enc = payload.candidates_enc\n            candidates_bin = session_keys.decrypt_str(candidates_enc, FORWARD)\n            candidates, _ = self.serializer.unpack("varlenH-list", candidates_bin)\n'},
+        {"file": TC, "old": '            self.send_extend(circuit, cast("list[bytes]", candidates), cache.max_tries if cache else 1)\n',
+         "new": '            cache = self.request_cache.pop(RetryRequestCache, circuit.circuit_id)\n            self.send_extend(circuit, cast("list[bytes]", candidates), cache.max_tries if cache else 1)\n'}]},
+    {"name": "garbage candidates swallowed with a log line while the retry cache is still registered", "rule": "release-after-accept", "edits": [
+        {"file": TC, "old": '            # The retry of the hop that just answered must not fire anymore, also if the candidates turn out to be garbage.\n            cache = self.request_cache.pop(RetryRequestCache, circuit.circuit_id)\n            try:\n                candidates_enc = payload.candidates_enc\n                candidates_bin = session_keys.decrypt_str(candidates_enc, FORWARD)\n                candidates, _ = self.serializer.unpack("varlenH-list", candidates_bin)\n            except Exception:\n                self.remove_circuit(circuit.circuit_id, "error while decrypting candidates")\n                return\n',
+         "new": '            try:\n                candidates_enc = payload.candidates_enc\n                candidates_bin = session_keys.decrypt_str(candidates_enc, FORWARD)\n                candidates, _ = self.serializer.unpack("varlenH-list", candidates_bin)\n            except Exception:\n                self.logger.warning("error while decrypting candidates")\n                return\n'},
+        {"file": TC, "old": '            self.send_extend(circuit, cast("list[bytes]", candidates), cache.max_tries if cache else 1)\n',
+         "new": '            cache = self.request_cache.pop(RetryRequestCache, circuit.circuit_id)\n            self.send_extend(circuit, cast("list[bytes]", candidates), cache.max_tries if cache else 1)\n'}]},
+    {"name": "retry cache released first, decoding of the candidates not guarded (the exception only aborts this handler)", "kind": "twin",
+     "rule": "release-after-accept", "at": "_ours_on_created_extended", "edits": [
+        {"file": TC, "old": '            # The retry of the hop that just answered must not fire anymore, also if the candidates turn out to be garbage.\n            cache = self.request_cache.pop(RetryRequestCache, circuit.circuit_id)\n            try:\n                candidates_enc = payload.candidates_enc\n                candidates_bin = session_keys.decrypt_str(candidates_enc, FORWARD)\n                candidates, _ = self.serializer.unpack("varlenH-list", candidates_bin)\n            except Exception:\n                self.remove_circuit(circuit.circuit_id, "error while decrypting candidates")\n                return\n',
+         "new": '            cache = self.request_cache.pop(RetryRequestCache, circuit.circuit_id)\n            candidates_enc = payload.candidates_enc\n            candidates_bin = session_keys.decrypt_str(candidates_enc, FORWARD)\n            candidates, _ = self.serializer.unpack("varlenH-list", candidates_bin)\n'}]},
     {"name": "verification moved into a decision helper whose failure result is ignored", "rule": "verify-before-accept", "edits": [
         {"file": TC,
          "old": "            shared_secret = self.crypto.verify_and_generate_shared_secret(hop.dh_secret, payload.key, payload.auth,\n                                                                          hop.peer.public_key.get_crypt_pk())\n            session_keys = self.crypto.generate_session_keys(shared_secret)\n            hop.keys = session_keys\n",
